@@ -12,1721 +12,1404 @@ Definition show_fres (r : fres) : string :=
   end.
 Definition check (rs : list rune) : string := digest (show_fres (format_res rs)).
 Definition full (rs : list rune) : string := show_fres (format_res rs).
-Eval vm_compute in ("<<<M3925>>>" ++ check (runes_of_ascii "
+Eval vm_compute in ("<<<M4445>>>" ++ check (runes_of_ascii "
 // top
-    options  // c0
-  {  // c1a
-	// c1b
+	  options 	 // c0a
+    	// c0b
+  {
 
-	StringPrefixLenType 
-        // c2
-    = // c3
-		u8 	 // c4a
+    // c1
 
-  // c4b
-		;
-ArrayPrefixLenType 	 // c6a
-    // c6b
-    = // c7a
-	// c7b
-	u32 	 // c8a
-		// c8b
-	; // c9a
-    // c9b
-    	FixedStringPadFromLeft// c10
-    	= 	 // c11
-      false// c12
-  ;  // c13
-  FixedStringPadChar // c14a
-// c14b
-    =// c15
+StringPrefixLenType // c2
+    =  u8 ;
+ArrayPrefixLenType 	 // c6
 
-	' '  // c16a
-      // c16b
-  ;	// c17
-	} 	 // c18
-  	packet	// c19
-  Party  // c20a
+=  // c7
+    	u32
+    // c8
+	;	// c9
+  FixedStringPadFromLeft 
+    // c10
+	= 	 // c11a
+  // c11b
+	  false  // c12a
+    // c12b
 
+;
+// c13
+  FixedStringPadChar
+    =
+
+    ' '
+;  // c17a
+  // c17b
+	}// c18a
+  // c18b
+packet
+	Party 	 // c20a
 // c20b
-      {repeat
+{  // c21a
 
-    // c22
-i16 
-	// c23
-Qty	// c24
-,
-	// c25
-    repeat 	 // c26a
-    // c26b
-	string 	 // c27
-	Tail  // c28a
-		// c28b
-    	,	// c29a
-  // c29b
-i8	OrderId	// c31
-  , // c32
-  i8// c33
-msgKind
-    // c34
-  ,	// c35
+  // c21b
 
-	}  
-      // c36
-  packet 
-      // c37
-  Ack 
-{ // c39a
+repeat 
+        // c22
+		i16 // c23a
+  // c23b
 
-  // c39b
-  	Party , 
-      // c41
-	  repeat // c42a
-// c42b
-InRef20 
-// c43
-  { 
-// c44
-Party
-// c45
-	, 	 // c46a
-// c46b
-    int8
-	// c47
-	tag7// c48a
-	// c48b
-    ,  // c49a
-    // c49b
-	char[ 
-// c50
-5	// c51
-  ] 	 // c52
-  OrderId  // c53
-		,// c54a
-  	// c54b
-zchar[	// c55a
-    // c55b
-    7	// c56
-  ]
-	Tail
-    , 	 // c59
-	char[]
+  Qty
+    // c24
+	  ,	// c25a
+  // c25b
+    repeat string 	 // c27
 
-    // c60
+	Tail 	 // c28a
+      // c28b
+    ,
+    i8  OrderId // c31a
+      // c31b
+	,  // c32a
 
-count
+// c32b
 
-, // c62a
+  i8 msgKind 	 // c34a
+// c34b
+    	,  // c35a
+// c35b
+      }packet
 
-// c62b
-	InPrice45	// c63a
-    // c63b
-{  
-      // c64
-Party// c65a
-  // c65b
-,
-char[1 
-    // c68
-	]
-	Px 
-      // c70
-
-  , 
-    // c71
-	  }  // c72a
-  // c72b
-      ,
-
-    // c73
-  	}// c74
-    	, 
-// c75
-    char[ 
-	// c76
-12// c77
-	  ]	// c78a
-    // c78b
-	price
-    // c79
-  	,	// c80a
-  // c80b
-	int8 
-    // c81
-    sym	// c82
-		,// c83a
-	// c83b
-  }
-
-    // c84
-
-packet// c85a
-
-// c85b
-
-Reject 
-	// c86
-    	{ // c87
-
-	repeat InPrice47 	 // c89
-
-	{// c90a
-	// c90b
-  	Party// c91
-  ,
-        // c92
-  }
-
-,  
-  // c94
-
-zchar[ 
-    // c95
-    	4// c96a
-		// c96b
-]
-    x 
-	// c98
-  , 	 // c99
-    repeat // c100a
-// c100b
-  Ack	// c101
-      ,// c102
-zchar[// c103a
-// c103b
-
-2	// c104a
-
-  // c104b
-    ]	Ref 	 // c106
-, repeat
-Party	// c109
-  ,  // c110
-	} 
-    // c111
-
-  packet 
-
-// c112
-    Cancel 	 // c113a
-
-// c113b
-
+    Ack  // c38
   {  
-  // c114
-    Reject ,
-repeat
-	// c117
-    string
-f1
-    // c119
-  ,  // c120
-    uint16// c121
+      // c39
 
-  OrderId  // c122a
+  Party // c40a
+	// c40b
+,
+	repeat  // c42a
+      // c42b
+  InRef20 
+// c43
+    	{
+Party  // c45a
 
-// c122b
-,  // c123
-    	u8// c124a
-// c124b
-    Acct // c125
-, 	 // c126
-      int8
-        // c127
-    msgKind 	 // c128
-	,
-} // c130
-      root 
-    // c131
-  	packet// c132
-    Fill 	 // c133a
-// c133b
-{
+  // c45b
+,int8// c47a
+	// c47b
+tag7 
+// c48
+,
+// c49
+char[ // c50a
+  	// c50b
+5	// c51a
+	// c51b
+	]
+    OrderId  // c53a
+// c53b
+	, zchar[7 // c56
+]	// c57
+		Tail // c58a
+// c58b
+,// c59
+    char[]  // c60a
+// c60b
 
-u8// c135
-      count  // c136a
-// c136b
-	, char[]  // c138
-  tag7	// c139a
-// c139b
-  , // c140a
-	  // c140b
+  count	// c61
+    ,	// c62a
 
-  zchar[ // c141a
+	// c62b
+InPrice45  // c63
+		{ 	 // c64
+		Party,  // c66a
 
-// c141b
+// c66b
+	char[
+// c67
+	  1
+    // c68
+      ]
+	    // c69
+Px , 
 
-	7
-    // c142
-    ] 
-    // c143
+    // c71
+} 	 // c72a
+// c72b
+  ,	} // c74a
+// c74b
+    ,	// c75a
+	// c75b
+char[ 	 // c76
+
+12
+        // c77
+  ]  
+  // c78
+    price 
+        // c79
+  	,// c80
+    int8  
+  // c81
+    sym// c82
+
+,// c83
+  	}  packet	Reject	// c86
+  {
+        // c87
+		repeat InPrice47	// c89
+      {  // c90a
+	// c90b
+Party
+    ,// c92a
+      // c92b
+      } ,// c94a
+    	// c94b
+    zchar[ // c95a
+// c95b
+4	// c96
+		] 	 // c97
+	x  // c98
+,  // c99
+	  repeat
+Ack
+// c101
+	,	// c102
+  zchar[  // c103a
+    // c103b
+		2	// c104a
+  	// c104b
+	]	// c105a
+  // c105b
+	Ref ,
+	// c107
+  repeat Party
+        // c109
+
+,  // c110a
+	// c110b
+
+}  // c111
+    packet 
+Cancel // c113
+	{ 	 // c114a
+  // c114b
+
+  Reject 
+, 
+
+// c116
+  repeat
+
+string // c118a
+// c118b
+f1, 
+
+// c120
+uint16  // c121a
+	// c121b
+OrderId 
+// c122
+  , 
+    // c123
+		u8 // c124
     Acct
-, u32
-        // c146
-	OrderId
 
-    , 
+    ,  // c126a
+	  // c126b
+  int8
+    // c127
+  msgKind ,}// c130
+	root
+packet	// c132
+Fill
+	    // c133
+    	{	u8  // c135a
+	// c135b
+  count ,
+char[] // c138
+      tag7
+,
+    // c140
+		zchar[  // c141a
+  // c141b
+	7 ] 
+
+// c143
+	  Acct 	 // c144a
+// c144b
+
+,	// c145a
+// c145b
+u32 // c146
+	  OrderId , 
 
     // c148
-	u32  
-      // c149
-    Note // c150
-  	@lengthOf( 
-Body	)  
-  // c153
-	, 
+    u32	Note
+// c150
+	@lengthOf(	// c151a
+    // c151b
+Body// c152
+		)  // c153
 
-    // c154
+	,	// c154a
+
+// c154b
     match
-	    // c155
-	OrderId
-
-    as
-Body
-{ 	 // c159a
-  // c159b
-	106 // c160a
-
-	// c160b
+    // c155
+      OrderId// c156
+    as  // c157a
+	// c157b
+		Body 
+    // c158
+  	{ // c159a
+    	// c159b
+  106
+// c160
 
   :	// c161
-Cancel 	 // c162
-	  ,196	// c164
-      :
-    // c165
-    Reject 
-	    // c166
-
-  ,74 
-:	// c169
-    Party
-	,// c171
-75 // c172
-  : 	 // c173a
-// c173b
-	Ack 
-        // c174
-  	,	// c175
-} 
-,
-
-}
-")).
-Eval vm_compute in ("<<<M4252>>>" ++ check (runes_of_ascii "packet /// triple
-	u128 { @calculatedFrom( """ ++ [128512]%N ++ runes_of_ascii """
-) 
-
-/// triple
-  	// c
-	i64	charz  `tab	here`  ,
-
-@lengthOf(  Header )
-	float32  a1 @calculatedFrom(
-
-    """ ++ [128512]%N ++ runes_of_ascii """ ) ,repeat string a1
-
-    `it's`,
-
-@tag( 42 ) @tag( 
-7 )  zchar 
-stringy
-	,
-
-    float32 calculatedFrom
-
-`
-`
-	, }
-	MetaData
-x
-	{ // " ++ [27880; 37322]%N ++ runes_of_ascii "
-	Header
-    x_y_z
-
-    `
-` ,
-
-int64	options1
-	`it's`
-, char[]
-chars
-,	u16 options1 ,  u16
-    calculatedFrom`tab	here` 	 // `tick` ""quote"" 'q'
-    ,
-    char[ 0123456789  ]u,
-
-    }
-
-    root
-    packet uint8x { @rightPad
-	(
-
-    '\x00'
-    ) char[	7]
-	asx
-	,
-
-    int64
-
-Pad	@lengthOf( As
-
-)  `crlf
-line`
-	, msg_type
-@calculatedFrom(""`tick`""
-) , @calculatedFrom( // a // b
-  ""a\\""  )
-    @rightPad( ' '
-
-)
-repeatCount
-
-    `line1
-line2`
-,@tag(	3) int32
-As
-
-    `two words` 
-, @tag(
-	1  ) @calculatedFrom(
-
-    ""`tick`"")
-	@lengthOf(
-    f32a)
-
-    match
-
-zchar  as
-u
-	{ 0123456789
-	:
-
-    leftPad
-	""\" ++ [233]%N ++ runes_of_ascii """
-
-:  _x
-
-    , 
-7
-
-:	MetaDataX ,
-[
-
-    4294967296	]:stringy ,
-7
-:uint8x}
-,@leftPad (
-	) string	Foo  @lengthOf(
-
-MetaDataX
-
-)
-
-``  ,//
-	match
-calculatedFrom as
-	A
-    {
-[
-    255
-
-, 7 
-,
-	1
-	, //x
-1
-	, 
-42
-	,
-
-007
-,
-007
-    ]
+    Cancel 
+      // c162
+	, 196
+	    // c164
+:// c165
+  	Reject 	 // c166
+	  , 	 // c167
+	74	// c168
     :
-A , [	// `tick` ""quote"" 'q'
-    ""a\\"" ,
-""it's""
-, ""1""  , 
-00
-    , """ ++ [128512]%N ++ runes_of_ascii """ 
-,
-""{,}""	,  42
-] 
-:
 
-calculatedFrom
-
-,
-""it's"": f32a  , 
-}
-	,  repeat
-
-char[]
-    i8i8 ,
-
-leftPad
-
-    ,
-}packet
-
-_x  {	char[]  Z9_ ,
-int64 options1
-    @calculatedFrom(  """"	// trailing space 
-
-  )
-`u8 x,`
-
-    ,  
-      // `tick` ""quote"" 'q'
-  @calculatedFrom(""// no comment"")
-match
-	tag 
-as
-roots
-{
-
-[ 	 // packet A { u8 x, }
-		""abc""	] :options1
-    65535
-
-    : o ,  ""// no comment"" :f32a  // c
-    ,
-
-""packet""
-:
-
-    uint8x,
-}
-, 
-leftPad
-
-    @calculatedFrom(
-""" ++ [233]%N ++ runes_of_ascii "t" ++ [233]%N ++ runes_of_ascii """ 
-),
-    repeat
-x , zchar[  65535 
-]float `line1
-line2`
-,
-	i16 uint8x ,
-
-zchar[  10
-	]
-    uint8x 	 // packet A { u8 x, }
-	,
-
-@calculatedFrom( ""abc"")
-repeat 
-x
-
-{trueish
-`tab	here` ,}
-    ,
-	@tag(
-1 
-)  char[
-
-3]
-// packet A { u8 x, }
-
-	// a // b
-    metadata
-`say ""hi""`
-
-    ,}
-")).
-Eval vm_compute in ("<<<M1073>>>" ++ check (runes_of_ascii "
-packet uint8x { @lengthOf(i64_ // trailing space 
-) calculatedFrom {i32 Foo	@lengthOf( pack),
-// " ++ [27880; 37322]%N ++ runes_of_ascii "
-// " ++ [128512]%N ++ runes_of_ascii " emoji
-} ,@leftPad
-    (
-'\x00' ) repeat A `it's` //	t
-, // a // b
-@rightPad ( '\x00')Header@calculatedFrom(""" ++ [28040; 24687]%N ++ runes_of_ascii """ ) , @calculatedFrom( ""// no comment""	) @tag(
-0123456789) @tag(  7
-) options1 { match	u	as lengthOf { 10: lengthOf
-    ,/// triple
-""a\\""
-:
-    As//x
-,
-} ,
-options1 roots	`{ , }` , },// @lengthOf(
-repeat o
-    //x
-    `" ++ [28040; 24687; 31867; 22411]%N ++ runes_of_ascii "` , @tag(
-42) @calculatedFrom(""" ++ [233]%N ++ runes_of_ascii "t" ++ [233]%N ++ runes_of_ascii """
-)	int16 BodyLength	, repeat	Logon T`// not a comment` ,repeat x string_	, } MetaData len
-    { Header lengthOf `// not a comment` , } packet metadata	{ roots
-    // " ++ [27880; 37322]%N ++ runes_of_ascii "
-    @lengthOf(asx ), @tag(
-    65535 )
-string Header
-@calculatedFrom(  """ ++ [28040; 24687]%N ++ runes_of_ascii """ )
-`
-` , @lengthOf(As ) @lengthOf( string_ ) @leftPad	(
-)
-    repeat char[1] body  , @calculatedFrom( ""a\""b"" )
-match u128 as
-Pad{
-""\" ++ [233]%N ++ runes_of_ascii """ : float  [
-    7 // " ++ [128512]%N ++ runes_of_ascii " emoji
-] :
-    Packet
-, 10 : i8i8	,
+Party ,  
+      // c171
+	  75 
+:  // c173
+		Ack 
+  // c174
+    ,	},// c177a
+  // c177b
+    }	// c178a
+  // c178b")).
+Eval vm_compute in ("<<<M88>>>" ++ check (runes_of_ascii "options  { BodyLength
+=
+    string; trueish	=""it's"" i8i8
+    =  ""// no comment""
     // trailing space 
-    },@tag( 255)
-    f64 a1 @calculatedFrom( // a // b
-""a\""b"" )
-    ,
-@lengthOf( falsey
-)// trailing space 
-MetaDataX@lengthOf(MetaDataX)
-, @tag(42
-)
-    char[	007 ] x_y_z	,}MetaData Z9_{
-f32 MetaDataX `{ , }` , zchar[10
-    ] charz
-`a\` , u16 leftPad `tab	here` ,packetx // trailing space 
-asx `say ""hi""` , char[]
-    //x
-    u8x , }
-root packet
-    // packet A { u8 x, }
-    Packet
-    // @lengthOf(
-    { int32 chars,	repeat int8 stringy , string chars
-    ,repeat	chars
-    // `tick` ""quote"" 'q'
-    {  _x  ,repeat repeatCount trueish,
-falsey // @lengthOf(
-@calculatedFrom(
-""it's"" )// " ++ [128512]%N ++ runes_of_ascii " emoji
-, },
-// packet A { u8 x, }
-// trailing space 
-char[] i8i8
-    @lengthOf( packetx),}
-")).
-Eval vm_compute in ("<<<M3845>>>" ++ check (runes_of_ascii "  packet	i64_ {@leftPad (
-	)
-
-@tag(  4294967296
-
-    )  repeat string	Logon
-
-    `{ , }`
-, @lengthOf(	float
-
-) u16 
-//x
-  matchKey
-@lengthOf(
-
-    body 
-)
-	,repeat
-    /// triple
-	char[
-
-4294967296	]
-	tag	,	@lengthOf(	asx	) repeat
-
-trueish
-
-    ,
-    repeat
-
-    lengthOf	len
-	, 	 // packet A { u8 x, }
-match  asx
-as crc
-
-    {
-
-    [  // a // b
-	  """ ++ [28040; 24687]%N ++ runes_of_ascii """ 
-        // trailing space 
-// c
-    ,
-
-    ""abc""
-
-    ]
-    :
-
-roots,	} , match
-
-    uint8x
-    as repeatCount {	[
-
-    0123456789
-    ]: 
-	/// triple
-	  Foo
-    ,
-
-""a\""b"": Packet
-
-    42 :
-stringy
-
-,[ // `tick` ""quote"" 'q'
-  0123456789
-, 007 ]
-: f32a
-	,//x
-    	42  : x
-}
-    // @lengthOf(
-  ,
-
-    @lengthOf( msg_type
-)
-	uint8x,
-repeat
-
-metadata  // " ++ [27880; 37322]%N ++ runes_of_ascii "
-  , 
-}MetaData
-    float
-
-{
-	char[
-42
-    ]
-
-    Logon	`a\`, 
-stringy
-packetx,
-	int32
-    pack
-
-,
-rootA
-
-    x
-
-,
-
-    Logon
-Foo
-,
-u16
-
-    A 
-  //	t
-//x
-, } //x
-  packet 
-    //	t
-    	Header
-
-    { @calculatedFrom(
-
-    ""1"" 
-)u ,	@tag( 
-65535
-    // a // b
-
-// trailing space 
-    )
-pack
-{ string
-
-trueish
-`" ++ [28040; 24687; 31867; 22411]%N ++ runes_of_ascii "`,  match 
-stringy	as
-
-tag
-    {
-""a\\"":
-
-    float
-
-    // `tick` ""quote"" 'q'
-    , 
-""abc"":  Z9_,
-	007 
-:
-
-    metadata ,// c
-
-[
-
-10
-
-]:matchKey 	 // " ++ [27880; 37322]%N ++ runes_of_ascii "
-    ,  ""a	b""
-:
-_x
-7	// " ++ [128512]%N ++ runes_of_ascii " emoji
-    	:
-
-    Pad }  ,
-    repeat
-
-    body
-
-,
-f32
-int
-
-,
-
-    }  ,MetaDataX
-
-    u128
-
-`doc` ,
-
-    }options
-	{}
-")).
-Eval vm_compute in ("<<<M4392>>>" ++ check (runes_of_ascii "packet
-options1 {
-
-    body
-int  `" ++ [28040; 24687; 31867; 22411]%N ++ runes_of_ascii "`	,
-	}MetaData
-	T // " ++ [27880; 37322]%N ++ runes_of_ascii "
-    	{leftPad
-charz, o
-
-roots
-,  }	packet 
-float 
-{
-
-    @lengthOf( x_y_z
-	)
-repeat i8  
-  // `tick` ""quote"" 'q'
-
-  calculatedFrom 
-`" ++ [233]%N ++ runes_of_ascii "` ,repeat
-
-stringy `
-`	,@tag( 007
-) 
-    /// triple
-
-@rightPad (
-' '	)
-f32a	@lengthOf(
-
-    len  )
-    ,
-
-    @lengthOf( 
-u8x
-)
-    match
-    chars
-
-    as
-	metadata
-    { ""x y""
-
-    :
-    matchKey, 	 // trailing space 
-""a\""b""
-
-    :
-    zchar  ,	[
-    ""a\\"" , 4294967296 ] :
-
-calculatedFrom,
-
-    1
-:
-T	, 7:
-i8i8 ,
-
-}
-
-,
-u128 tag `" ++ [233]%N ++ runes_of_ascii "`,	T @calculatedFrom(	""{,}""  )	`doc` 
-, 
-    /// triple
-  // c
-  } packet 
-uint8x 
-{ }  root  // `tick` ""quote"" 'q'
-      packet
-    zchar
-    {
-	@tag( 
-  // packet A { u8 x, }
-		1  ) match packetx
-
-    as
-    calculatedFrom 
-{ 
-007
-	: chars
-
-    ,  """ ++ [128512]%N ++ runes_of_ascii """ :
-	crc
-, 
-""a	b""
-:
-
-Foo 	 // @lengthOf(
-      ,
-42	:
-
-u8x  , 
-[
-
-    ""\" ++ [233]%N ++ runes_of_ascii """]:  u8x,
-    [
-
-""it's""	,
-""1""
-
-    ,
-    1
-
-, 
-""\n"" ,
-
-00
-
-] :MetaDataX
-
-,
-	}
-
-    , @tag( 
-00
-)
-
-    char x,
-
-    @leftPad
-('\x00' )
-
-    @calculatedFrom(
-""" ++ [28040; 24687]%N ++ runes_of_ascii """
-    )
-@lengthOf(repeatCount//
-
-) u128
-
-    falsey `doc` ,// c
-  falsey@calculatedFrom(
-	"""")
-	, float64
-Logon @calculatedFrom(
-
-    """ ++ [28040; 24687]%N ++ runes_of_ascii """ ) 
-	//x
+    roots
 // a // b
-  	`it's`
-,  } ")).
-Eval vm_compute in ("<<<M1161>>>" ++ check (runes_of_ascii "MetaData body	{ asx stringy  , f64
-// " ++ [27880; 37322]%N ++ runes_of_ascii "
-// c
-As ``	, Foo Logon `a\`
-    // " ++ [27880; 37322]%N ++ runes_of_ascii "
-    ,
-    packetx asx `" ++ [28040; 24687; 31867; 22411]%N ++ runes_of_ascii "` ,u32 matchKey `line1
-line2`
-,
-    u16  chars , } root
-    packet
-    _x //	t
-{match rootA as repeatCount{
-/// triple
-//x
-007 : msg_type /// triple
-[
-4294967296 ,""// no comment""
-    ]
-    : leftPad ,""""
-    :packetx ,0123456789
-    : Logon
-, 10:
-    a1 ,
-    [
-""abc"" , 7 // packet A { u8 x, }
-,
-""CRC32""
-, 0123456789 ,
-255
-    ,""a\""b"" ,""" ++ [128512]%N ++ runes_of_ascii """ ]: len
-    ,}, repeat string trueish , @rightPad ( ) int64 f32a@lengthOf(
-tag  ) ,
+// packet A { u8 x, }
+=// `tick` ""quote"" 'q'
+""" ++ [28040; 24687]%N ++ runes_of_ascii """ ;// a // b
+falsey = '\x00' ; } packet metadata{
+    packetx
+    { repeat rootA x_y_z `tab	here` , repeat pack
+, Logon {
+    u16 msg_type , u8 BodyLength
+`
+`,
+zchar[
+3 ] int  ,} ,
+a1
+T, }
+, // `tick` ""quote"" 'q'
+repeat f32 o `crlf
+line`
+, i32 rootA, int32  matchKey , @leftPad
 // a // b
 // @lengthOf(
-zchar[ 42 ] lengthOf
-    @lengthOf( tag )`{ , }`
-    ,
-    @tag( 10
-) int32
+( )
+x_y_z {	match body	as	u8x
+    { [ ""{,}"" ]:u8x	, 3:
+u8x , 4294967296: As ,
+[ ""CRC32"" ]:A
+,
+255 // packet A { u8 x, }
+: body
+    //
+    , // c
+42
+    :
+x_y_z }
+, } , repeat
+body float
+, } // trailing space 
+packet trueish
+{ stringy @lengthOf( float )	`{ , }`
+,repeat// packet A { u8 x, }
+i64_ ,
+    uint16 string_
+    // `tick` ""quote"" 'q'
+    @calculatedFrom(
+""\" ++ [233]%N ++ runes_of_ascii """)
+`
+`	, // a // b
+@tag( 0123456789)char[
+    //x
+    4294967296 ]
+    calculatedFrom @lengthOf( int )`line1
+line2`	, // packet A { u8 x, }
+match rootA as asx
+{	""\" ++ [233]%N ++ runes_of_ascii """: f32a, ""\n"" :
+    rootA [ ""a\\""
 //
-//	t
-leftPad `doc`,
-    x_y_z
-    chars
-,@calculatedFrom( ""// no comment""
+//
+, 0123456789 ] : crc
+,1 : msg_type , ""a	b"" :stringy// packet A { u8 x, }
+, }
+    // " ++ [27880; 37322]%N ++ runes_of_ascii "
+    ,repeat len	{ string_{i16 _x , _x { repeat uint8x a1
+, char[ 42
+    ]	zchar
+    `say ""hi""` , zchar[ 7  ] uint8x ,
+}
+    ,repeat i8i8 body, }
+    // " ++ [128512]%N ++ runes_of_ascii " emoji
+    , uint8
+T	@lengthOf(
+repeatCount ), } ,}root packet asx { @calculatedFrom(	""x y""
 )
-    @lengthOf(
-_x ) @lengthOf( matchKey)repeat zchar
-    zchar , @calculatedFrom(/// triple
-""a	b""
-    ) repeat
-Pad i8i8 , @tag( 1
-    // c
-    ) repeat int16 metadata
-    , }	options
-{ T = ""`tick`""
-    // packet A { u8 x, }
-    ;
-    crc
-= '\x00' ; // packet A { u8 x, }
-o=
-    ' ' ;
-    } packet matchKey // trailing space 
-{
-zchar[ 0123456789 ]  crc ,@lengthOf(packetx)
-char[]//	t
-uint8x
-    `say ""hi""`, repeat As A, }
-// c
-")).
-Eval vm_compute in ("<<<M4456>>>" ++ check (runes_of_ascii "//	t
-		root packet	Header	{
-    @tag(
+repeat pack ,repeat string_ { u8 metadata
+,} ,  @calculatedFrom( ""abc"" )	roots
+@lengthOf(
+    T
+) `` , match asx as uint8x
+{ 3: u8x, }
+    // a // b
+    ,// trailing space 
+u8x@calculatedFrom( ""{,}"" ) , } packet o // " ++ [128512]%N ++ runes_of_ascii " emoji
+{ string Logon ,charz metadata , match// c
+len as
+float{
 255
-)
-float32 msg_type 
-      // @lengthOf(
-    	// packet A { u8 x, }
-	@lengthOf(
-u8x
-    ) `" ++ [28040; 24687; 31867; 22411]%N ++ runes_of_ascii "` ,
+    :
+    //	t
+    uint8x , ""CRC32"": As ,
+    1
+    : body , 7
+:	options1 ,[	""" ++ [128512]%N ++ runes_of_ascii """,""it's"" //
+]:
+    repeatCount}, @leftPad ( ) @calculatedFrom( ""x y"" )  @leftPad(  ' ' )repeat lengthOf,zchar[
+42  ]
+    Logon@calculatedFrom(// packet A { u8 x, }
+"""" ), }
 //x
+")).
+Eval vm_compute in ("<<<M510>>>" ++ check (runes_of_ascii "root
+packet
+Foo  {
+chars
+{ falsey body  , zchar[ 3	] repeatCount
+    `{ , }` , } ,
+@lengthOf(BodyLength ) i8 //	t
+Z9_
+    @lengthOf( trueish ) , // " ++ [128512]%N ++ runes_of_ascii " emoji
+@rightPad (
+) repeat Pad { _x@calculatedFrom( // `tick` ""quote"" 'q'
+""\" ++ [233]%N ++ runes_of_ascii """
+    )	, match msg_type as // @lengthOf(
+uint8x
+    { [ 1 , ""\n""
+    ,0, ""\n""] : Packet ""CRC32"":
+pack,} , } ,  @calculatedFrom( ""a\""b"" ) repeat body {
+char[ 007 ] i64_ // `tick` ""quote"" 'q'
+`
+` ,
+    match charz
+    as pack{ 65535 :
+    u8x 65535 :	zchar
+    ,[ 255 ] // trailing space 
+:	chars
+// `tick` ""quote"" 'q'
+// " ++ [128512]%N ++ runes_of_ascii " emoji
+,1
+:
+    stringy, [ """ ++ [28040; 24687]%N ++ runes_of_ascii """] : int	,0
+    :// " ++ [128512]%N ++ runes_of_ascii " emoji
+asx , } // " ++ [27880; 37322]%N ++ runes_of_ascii "
+, }
+,  match // c
+o
+    as
+// " ++ [128512]%N ++ runes_of_ascii " emoji
+// `tick` ""quote"" 'q'
+A
+    { 007
+    :
+calculatedFrom ,	""abc""
+:roots
+// packet A { u8 x, }
+// packet A { u8 x, }
+, ""`tick`"":Foo
+    ,
+    ""it's"":Foo , 007 :
+//	t
+// packet A { u8 x, }
+float,
+} ,@leftPad
+(' '
+// trailing space 
+// `tick` ""quote"" 'q'
+)
+// `tick` ""quote"" 'q'
+// trailing space 
+repeat repeatCount	, char[ 007 ]
+u128
+// `tick` ""quote"" 'q'
+// packet A { u8 x, }
+`crlf
+line`,} //
+packet asx {
+charz { rootA
+//	t
+// trailing space 
+@calculatedFrom( """ ++ [233]%N ++ runes_of_ascii "t" ++ [233]%N ++ runes_of_ascii """
+) ,  }, }
+packet msg_type
+{
+}MetaData  o{ f32
+msg_type,
+    int64 body
+    , } root packet body {  @tag(1
+    ) @calculatedFrom(	""`tick`""
+)
+    @tag(
+    0123456789
+) metadata
+    {pack i64_ , } ,  repeat zchar[ 7
+    // trailing space 
+    ] asx ,
+chars @calculatedFrom(""\n"" ) , repeat zchar[
+    4294967296 ]
+    x  ,@rightPad (
+'\x00' )u8
+    msg_type `" ++ [233]%N ++ runes_of_ascii "`
+    ,
+float64
+pack @lengthOf(
+    MetaDataX
+    )
+,	}")).
+Eval vm_compute in ("<<<M3903>>>" ++ check (runes_of_ascii "
+packet i64_ {
+    @leftPad(  )
+    @tag(	4294967296	)repeat
 
-@calculatedFrom( ""a	b""
-	)repeat string
-i64_
+    string Logon
+
+`{ , }`  ,	@lengthOf(float )
+	u16
+//x
+		matchKey
+
+@lengthOf(
+body	)
+
+    ,
+repeat
+/// triple
+	  char[ 
+4294967296
+
+    ] tag
+, @lengthOf( 
+asx
+) 
+repeat
+	trueish
+
+    ,	repeat
+    lengthOf len
+
+,  // packet A { u8 x, }
+
+	match asx 
+as
+
+    crc {  [ // a // b
+""" ++ [28040; 24687]%N ++ runes_of_ascii """ 
+	// trailing space 
+  // c
+  	,	""abc"" 
+]
+
+:
+    roots
+
+    ,
+
+}
+    ,  match uint8x as repeatCount
+
+{	[  0123456789 ] : 
+/// triple
+Foo,""a\""b"" : Packet 42 : stringy
+,	[	// `tick` ""quote"" 'q'
+	  0123456789,  007 ]:
+f32a
+
+    ,//x
+
+42
+    : x
+
+    } 
+
+    // @lengthOf(
+,  @lengthOf(  msg_type)
+
+    uint8x
 
     ,repeat
 
-x_y_z
-{ //x
-	asx ,
+metadata	// " ++ [27880; 37322]%N ++ runes_of_ascii "
+	,
+	}  MetaData 
+float	{
 
-string
-    i8i8 @lengthOf(
-float	)
+char[  42
+    ]
+Logon
 
-    , uint16// `tick` ""quote"" 'q'
-      As// @lengthOf(
-	  @calculatedFrom(
-    ""x y""
-
-//
-  ),
-
-    }
-
-    , //
-  @lengthOf(i8i8)	msg_type{
-
-    match tag as Z9_	{ [1  
-      // " ++ [27880; 37322]%N ++ runes_of_ascii "
-    ,
-    ""packet""]
-:Z9_,
-[
-    4294967296] 
-:  options1
-
-, ""\n"" : Pad	,
-
-    } , match calculatedFrom
-	as
-	packetx
-    {0123456789 	 /// triple
-	  :metadata[ """ ++ [233]%N ++ runes_of_ascii "t" ++ [233]%N ++ runes_of_ascii """
-] 
-:	T  , 1	:
-
-i64_ ,
-}
-,  //	t
-match
-
-BodyLength as 
-chars
-    {
-0
-
-:  metadata
-    ,	""" ++ [128512]%N ++ runes_of_ascii """
-    :
-
-u128 ,	""a\""b"" :calculatedFrom ,0
-:
-    As , """ ++ [128512]%N ++ runes_of_ascii """ : 
-x_y_z 7
-:f32a ,	}//	t
-      , 
-u
-    trueish  
-      // " ++ [128512]%N ++ runes_of_ascii " emoji
-
+`a\` 
 ,
-	}
 
-,} MetaData  charz
-	{ i32 	 // " ++ [128512]%N ++ runes_of_ascii " emoji
-      x `u8 x,`
-    , 
-char[] calculatedFrom
+    stringy
+    packetx
+,	int32
 
-    `two words`  ,
-
-    int8 
-        // packet A { u8 x, }
-
-	// trailing space 
-  	packetx
-    `crlf
-line`, 
-}  MetaData	//	t
-      charz
-	{
-}")).
-Eval vm_compute in ("<<<M365>>>" ++ check (runes_of_ascii "
-packet
-    trueish
-    // @lengthOf(
-    {
-    char[ 7
-]chars @calculatedFrom( """ ++ [128512]%N ++ runes_of_ascii """) , char[] uint8x@calculatedFrom( ""`tick`"" )// c
-`
-` ,  int16 // a // b
-metadata @calculatedFrom( """ ++ [128512]%N ++ runes_of_ascii """// @lengthOf(
-) `doc`, pack @lengthOf( stringy	) , u8
-float @lengthOf( leftPad ) , @lengthOf(
-chars ) f32a
-    trueish, repeat
-    zchar[ //	t
-4294967296 ]
-u  , @leftPad(
-    //
-    ' ' // trailing space 
-)@lengthOf( leftPad ) @tag(
-    7 ) repeat string	u128
-,
-    }
-    packet Header { u64 leftPad
-,	@lengthOf( u128	) repeat uint32
-T
-,@tag( 4294967296
-)repeat uint32
-    x_y_z ``
-    , T	,
-@tag( 1 ) zchar[7]	Packet@lengthOf( f32a  )
-// @lengthOf(
+pack
+,  rootA  x,
+	Logon Foo
+    , u16 A
+    //	t
 //x
-, // trailing space 
-float32
-    lengthOf
-, // packet A { u8 x, }
-i32 // " ++ [128512]%N ++ runes_of_ascii " emoji
-calculatedFrom `crlf
-line` ,@tag(0123456789	)
-@tag( 1// trailing space 
-)
-//
-// `tick` ""quote"" 'q'
-@calculatedFrom( """ ++ [128512]%N ++ runes_of_ascii """ ) float32
-lengthOf@calculatedFrom( ""\n"" )
-    `" ++ [233]%N ++ runes_of_ascii "`
-, zchar[ 007 ] zchar @calculatedFrom(
-// a // b
-// packet A { u8 x, }
-""abc""	) `" ++ [28040; 24687; 31867; 22411]%N ++ runes_of_ascii "` /// triple
-,
-int32
-    roots
-,
-}
-")).
-Eval vm_compute in ("<<<M391>>>" ++ check (runes_of_ascii "packet body{ }root packet  x { @rightPad
-/// triple
-// @lengthOf(
-(  '\x00' ) charz // c
-`tab	here`	, @calculatedFrom( ""\" ++ [233]%N ++ runes_of_ascii """
-    ) // a // b
-u128 , }packet trueish // " ++ [128512]%N ++ runes_of_ascii " emoji
-{  match leftPad as u { // packet A { u8 x, }
-""1"" :
-float , 007: Packet
-, 65535
-// `tick` ""quote"" 'q'
-//
-:  _x 0123456789 : //x
-charz ,
-""" ++ [233]%N ++ runes_of_ascii "t" ++ [233]%N ++ runes_of_ascii """	: f32a  , ""abc"" : BodyLength ,} ,
-repeat char T
-,
-    @tag(
-    // trailing space 
-    42 ) @tag(// packet A { u8 x, }
-4294967296// @lengthOf(
-)
-@rightPad // @lengthOf(
-('0' )repeat // c
-int64 zchar
+    	,} //x
+	  packet
 //	t
-// `tick` ""quote"" 'q'
-, }root packet Packet{
-repeat	_x {
-trueish
-/// triple
-// a // b
-Foo ,} , @rightPad( '\x00' )int64 x_y_z @lengthOf(
-    rootA )`
-`
-, @tag(
-// @lengthOf(
-// " ++ [27880; 37322]%N ++ runes_of_ascii "
-4294967296
-    ) //	t
-match
-pack	as pack
-{ 007  :Logon, [42
-    ] :metadata
-    4294967296 : rootA
-// a // b
-//x
-""1"" // c
-: uint8x
-, } , i8i8
-{ i16 stringy `crlf
-line` ,
+
+	Header
+
+{
+@calculatedFrom(""1""
+)u ,@tag(
+
+65535
+        // a // b
     // trailing space 
-    Pad x_y_z , u16 Packet @calculatedFrom( """"
-)
-, } , // c
-} /// triple")).
-Eval vm_compute in ("<<<M3503>>>" ++ check (runes_of_ascii "options{
-LittleEndian= true;	StringPrefixLenType= u32;FixedStringPadChar =
-'0'  ;
-    } 
-packet Logout {repeat
-	InMsgkind49 
-{u8 pad0	,}	,
-    repeat char[
-	5 ]
-    seqNo
-	,
+		)
 
-repeat u8
-	price,	} packet
-Party
+    pack
 
-{  zchar[
-
-7
-
-] Qty 
-, 
-}packet Logon
-{ repeat
-
-    InRef10  {
-
-    string	price , char[]sym
-, repeat Logout,
-}  ,  repeat char[  3 ]	count	, repeat Party , char[] tag7
-    ,@rightPad 
-(
-    '0' )
-	char[
-
-2 ] 
-clOrdID,} 
-packet
-
-Order {
-InTail13
 {
+string  trueish
 
-    Party  ,
+`" ++ [28040; 24687; 31867; 22411]%N ++ runes_of_ascii "` , match 
+stringy as
+	tag {
+""a\\"" : float 
+      // `tick` ""quote"" 'q'
+	  ,
+""abc"":
 
-    } ,repeat char[ 4
-    ] count
+Z9_,
+	007 
+:
+    metadata
 
-    ,
-} root
-	packet 
-Cancel 
-{Logout ,	@leftPad 
-('0'
-)
-char[ 9 
-]	msgKind
-	,
-string lastPx ,
+    , 	 // c
+	[ 10	] :
+matchKey // " ++ [27880; 37322]%N ++ runes_of_ascii "
 
-    string tag7	,  zchar[
-1
-    ] 
-OrderId ,
-repeat Party
-,
-
-    u16
-sym
-    ,u16
-	Acct
-    @lengthOf(
-
-    Body )
-	,
-	match 
-sym
-as
-
-Body {  [	24 
-,
-
-    44
-
-]	:
-    Logout
-
-    ,
-	160	:
-Order ,
-91
-    : Logon
-
-    , 43: Party, }
-
-    ,
-
-    u16
-Tail @calculatedFrom(
-""CRC32"")
-
-,  }")).
-Eval vm_compute in ("<<<M4014>>>" ++ check (runes_of_ascii "packet 
-int
-	{
-char[]	// a // b
-  crc
-`it's`
-
-    ,
-
-}packet
-	metadata
-{
-pack  Logon, @tag(
-    00
-
-) 
-len { repeat u8x	leftPad
-`" ++ [28040; 24687; 31867; 22411]%N ++ runes_of_ascii "`,repeat
-	u16
-    i64_ ,
-    } ,
-    @lengthOf(	x
-) repeat
-T
-	MetaDataX`tab	here` , match 
-
-    //x
-
-matchKey as lengthOf 
-{""a\\"" :
-_x
-
-    ,
-[ 	 /// triple
-  255
-,  00  // `tick` ""quote"" 'q'
-]	:chars
-
-    ,
-
-    [
-
-    ""it's"" , 
-0	]  // `tick` ""quote"" 'q'
-
+, ""a	b""  :_x 7 	 // " ++ [128512]%N ++ runes_of_ascii " emoji
   :
-crc ,
+Pad
+	} ,
 
-    0 :  matchKey
-, ""\" ++ [233]%N ++ runes_of_ascii """ 
-  // " ++ [128512]%N ++ runes_of_ascii " emoji
-  // a // b
-      : 	 //
-rootA	""x y"" // trailing space 
-    :
-
-    leftPad ,}
-/// triple
-,@tag( 255
-) 
-float32
-	options1
-	@calculatedFrom(""`tick`""
-	)  ,
-	@rightPad ( ) i64
-    Packet `it's`, repeat 
-zchar[
-	255
-
-] metadata `tab	here`,  /// triple
-
-  @rightPad
-( '\x00')	// trailing space 
-  repeat i16
-
-chars
-
-    `" ++ [233]%N ++ runes_of_ascii "`
+    repeat
+	body, f32 int 
 ,
 
-A 
-        /// triple
-    	// packet A { u8 x, }
-  @lengthOf( 
-    // c
-      BodyLength ) , }
+    }
+
+    , 
+MetaDataX 
+u128
+
+    `doc` 
+, }options {
+}
 ")).
-Eval vm_compute in ("<<<M1394>>>" ++ check (runes_of_ascii "root packet
-    // c
-    stringy { match
-    repeatCount as matchKey { ""a\\""
-: // trailing space 
-roots  ,} ,i8 o
-`" ++ [233]%N ++ runes_of_ascii "`
-, pack `" ++ [28040; 24687; 31867; 22411]%N ++ runes_of_ascii "`, u16  o , @tag(	0123456789 )zchar[  42	]
-repeatCount
-@calculatedFrom(
-"""" ) ,
-@leftPad( ' ' ) //
-repeat Header
-    {
-match asx // " ++ [128512]%N ++ runes_of_ascii " emoji
-as falsey {
-""\n""
-: asx  , 0
-    : Z9_ ,
-    // packet A { u8 x, }
-    00
-: repeatCount ,
-7 // a // b
-: a1 /// triple
-,
-    255 :A	,}
-    ,match crc// @lengthOf(
-as Foo
+Eval vm_compute in ("<<<M829>>>" ++ check (runes_of_ascii "packet
+    repeatCount
+{match falsey as  string_{65535 : crc ,[ 007 ,
+    // " ++ [27880; 37322]%N ++ runes_of_ascii "
+    65535 , 65535 ] : i8i8 ,
+} ,
+    @lengthOf( // " ++ [128512]%N ++ runes_of_ascii " emoji
+float)
+T {// " ++ [128512]%N ++ runes_of_ascii " emoji
+char[]Packet @lengthOf( // " ++ [27880; 37322]%N ++ runes_of_ascii "
+trueish )
+,}
+    , uint64 Logon `doc` ,
+zchar[ 0
+]
+trueish @calculatedFrom(
 // trailing space 
+// @lengthOf(
+""// no comment""  ) , @lengthOf(a1)repeat rootA i64_ `// not a comment` , u64
+    /// triple
+    u ,} packet	i64_
+// `tick` ""quote"" 'q'
+// `tick` ""quote"" 'q'
+{//
+@rightPad (
+' '
+) f64 float, // `tick` ""quote"" 'q'
+match	rootA as i8i8
+    // c
+    { [ ""\n"" ,
+007 ,
+    """ ++ [128512]%N ++ runes_of_ascii """
+,
+""" ++ [128512]%N ++ runes_of_ascii """ ] :lengthOf }
+, i16
+Packet , int16
+    // `tick` ""quote"" 'q'
+    lengthOf
+    @calculatedFrom(""" ++ [28040; 24687]%N ++ runes_of_ascii """ ) `line1
+line2` ,
+@calculatedFrom( """" )@calculatedFrom( ""it's""	)
+    zchar[
+    // " ++ [128512]%N ++ runes_of_ascii " emoji
+    007 ] As  , char[] i8i8@lengthOf(
+zchar
+//x
+// trailing space 
+),
+u16 packetx @lengthOf(falsey  )
+    , repeat	len
+{// c
+u32 lengthOf ,
+},match MetaDataX as u128
+    { 1
+    : u ,""x y""
+    : u	, 255 :
+    i64_""x y"" :falsey
+, [""1"" , 1 ] :repeatCount
+// a // b
 //	t
+,// packet A { u8 x, }
+} ,
+}
+options {  asx =  uint8 ; matchKey =  true
+i64_ =	false Logon
+= char[]
+/// triple
+// " ++ [27880; 37322]%N ++ runes_of_ascii "
+;
+    A =
+00
+} packet
+Packet
+{ // packet A { u8 x, }
+uint32
+float
+    `it's` ,}
+")).
+Eval vm_compute in ("<<<M3940>>>" ++ check (runes_of_ascii "// top
+options {
+    // c1
+    StringPrefixLenType = u16;
+    ArrayPrefixLenType = u32;// c9a
+    // c9b
+    FixedStringPadFromLeft = false;// c13
+    FixedStringPadChar = '0';// c17
+}
+
+// c18
+packet Logout {
+    // c21
+    f64 f1,// c24a
+    // c24b
+    i16 Note,
+    @rightPad('\x00')
+    char[11] Flags,
+}// c37a
+
+// c37b
+packet Cancel {
+    // c40
+    float64 msgKind,
+    // c43
+}// c44a
+
+// c44b
+packet Reject {
+    // c47
+    InQty43 {
+        // c49a
+        // c49b
+        float32 sym,
+        char[10] Tail,
+        uint8 venue,// c60a
+        // c60b
+        uint16 f1,// c63
+        char[9] Acct,
+        // c68
+    },// c70a
+    // c70b
+}// c71
+
+packet Trade {
+    // c74a
+    // c74b
+    char[] x,
+    zchar[6] Note,
+    // c82
+    repeat Reject,// c85
+}
+
+root packet Order {
+    // c90a
+    // c90b
+    Cancel,
+    Logout,// c94
+    u64 Acct,
+    // c97
+    u32 OrderId,
+    match OrderId as Body {
+        // c105
+        [127, 70] : Reject,
+        // c113
+        177 : Trade,
+        // c117
+        58 : Logout,
+        // c121
+        75 : Cancel,
+        // c125
+    },
+    u32 Tail @calculatedFrom(""CRC32""),
+}// c134")).
+Eval vm_compute in ("<<<M4460>>>" ++ check (runes_of_ascii "root packet crc {
+    repeat zchar[3] Header `u8 x,`,
+    @leftPad(' ')
+    char[] string_ `say ""hi""`,
+    @tag(4294967296)
+    repeat f32a {
+        MetaDataX {
+            repeat u f32a,
+        },
+    },
+    char[3] repeatCount `it's`,
+    @tag(255)
+    Packet `u8 x,`,
+    @rightPad()
+    int32 i64_ ``,
+    @tag(4294967296)
+    i8 o `{ , }`,
+    @tag(4294967296)
+    @calculatedFrom(""a\""b"")
+    char[] trueish,
+    @lengthOf(u8x)
+    i8i8 {
+        metadata zchar,
+        repeat a1 {
+            Header,
+        },//
+        As {
+            match Z9_ as matchKey {
+                ""packet"" : calculatedFrom,
+                [
+                    4294967296, """ ++ [233]%N ++ runes_of_ascii "t" ++ [233]%N ++ runes_of_ascii """, ""`tick`"", 65535, """ ++ [28040; 24687]%N ++ runes_of_ascii """,
+                    ""// no comment"", 65535
+                ] : trueish,
+            },
+            repeat metadata {
+                repeat _x body `
+                `,
+                chars MetaDataX `crlf
+                line`,
+                uint16 u8x @lengthOf(As) `
+                `,
+            },
+            uint8 f32a,
+        },
+    },
+    char[] Logon,
+}")).
+Eval vm_compute in ("<<<M1326>>>" ++ check (runes_of_ascii "MetaData
+// " ++ [128512]%N ++ runes_of_ascii " emoji
+// trailing space 
+o { char[
+255 ] // @lengthOf(
+BodyLength, } packet
+    crc
+    { @tag( 7 ) calculatedFrom @lengthOf(Header ) ,
+    len
+{ float {  i32 T, stringy string_
+    // c
+    , char[ // " ++ [27880; 37322]%N ++ runes_of_ascii "
+65535 ] Packet
+@lengthOf( a1 ) ``
+    , falsey {	u16 Logon  `{ , }` , } ,	}
+, repeat /// triple
+falsey , repeat u8 Logon,} , zchar[ 65535] lengthOf @lengthOf(
+asx  )`line1
+line2` , @rightPad ('0'
+    ) int16 f32a ,@rightPad ( // packet A { u8 x, }
+'\x00' )char[]
+len
+    // packet A { u8 x, }
+    `" ++ [28040; 24687; 31867; 22411]%N ++ runes_of_ascii "`, match string_ as string_
+    /// triple
+    { [ ""a\\"" ,
+10 , 007 ,//	t
+0123456789]	:As
+, [ ""`tick`"" ] : //
+metadata	, ""\n"" :
+falsey,// `tick` ""quote"" 'q'
+[
+3 , // " ++ [27880; 37322]%N ++ runes_of_ascii "
+""" ++ [233]%N ++ runes_of_ascii "t" ++ [233]%N ++ runes_of_ascii """ , //	t
+""CRC32"" ]
+    : lengthOf ,00 :	x_y_z ,  }  , packetx{
+    repeat a1 `it's`// packet A { u8 x, }
+,stringy
+`{ , }`
+    ,match
+    T as
+MetaDataX// @lengthOf(
+{ ""CRC32""
+:	lengthOf
+    } , } ,	} MetaData  tag  { //x
+}
+packet Z9_ {  i16
+rootA
+// packet A { u8 x, }
+// @lengthOf(
+`
+`// " ++ [27880; 37322]%N ++ runes_of_ascii "
+, //	t
+}")).
+Eval vm_compute in ("<<<M941>>>" ++ check (runes_of_ascii "packet Packet	{
+    u128 @calculatedFrom( ""// no comment"" // trailing space 
+) , zchar[ 255 ]repeatCount@lengthOf( Z9_
+    )`doc` ,repeat
+    matchKey { char[ 10]
+    msg_type @calculatedFrom(
+    ""a\\"" )
+    , zchar[ 255 ]
+    o @calculatedFrom( ""CRC32""// a // b
+)	,repeat zchar[00
+    ]Header `it's`
+,repeat asx
+    //
+    { BodyLength//x
+@lengthOf( // " ++ [27880; 37322]%N ++ runes_of_ascii "
+matchKey )
+`{ , }`
+, match metadata as//x
+a1 { 255 : calculatedFrom , 7 : u8x // @lengthOf(
+} , char[ 007 //x
+]  float
+    // trailing space 
+    , match charz as //	t
+u8x// trailing space 
 {
-    7 :
-    // @lengthOf(
-    packetx ,4294967296: lengthOf ,1
+""a\""b"" : Logon, }  ,} , } , repeat Foo
+    `crlf
+line`, @tag(
+    10 )
+rootA charz , int @lengthOf( a1 ) , }
+MetaData lengthOf {zchar[0 // `tick` ""quote"" 'q'
+] //	t
+uint8x , } packet
+len { }// @lengthOf(
+packet u
+    {match f32a as BodyLength{0
+: float
+, }	, } MetaData leftPad // trailing space 
+{ u32 f32a `doc` ,zchar[ 255 ] i64_ ,
+    char[]zchar  ,
+    // `tick` ""quote"" 'q'
+    T i64_
+`" ++ [233]%N ++ runes_of_ascii "`
+,
+    }
+")).
+Eval vm_compute in ("<<<M576>>>" ++ check (runes_of_ascii "
+root
+    packet
+    //	t
+    len{roots@calculatedFrom( ""\n"" ) , } root packet u { @lengthOf( i8i8
+) float64 Header@calculatedFrom(
+    ""1""
+)
+`a\`  ,
+lengthOf { stringy @lengthOf( BodyLength
+)
+, float64 BodyLength // trailing space 
+`tab	here`
+,/// triple
+int16 a1@calculatedFrom( ""{,}""
+) `{ , }`, BodyLength ,
+} ,
+@tag(1	)  @rightPad	( ) @rightPad
+(
+'0' ) // @lengthOf(
+packetx
+@calculatedFrom( ""\n"") ,// @lengthOf(
+@lengthOf( Pad ) zchar[ 65535
+// packet A { u8 x, }
+// trailing space 
+]
+    // trailing space 
+    lengthOf , char[// " ++ [27880; 37322]%N ++ runes_of_ascii "
+007]	string_ `// not a comment`	, @rightPad ( )
+    repeat //	t
+string falsey , @tag( 4294967296)
+    //x
+    char Foo `
+`,  match	options1	as body {65535 :	o
+4294967296 :
+tag, ""x y"": trueish
+    // packet A { u8 x, }
+    , ""packet""
+    :
+As , [ 0123456789]: rootA ,
+""x y"":
+uint8x ,} ,
+} MetaData x { metadata
+zchar`" ++ [28040; 24687; 31867; 22411]%N ++ runes_of_ascii "` , } options { Foo = char[ 255 ] ;
+}")).
+Eval vm_compute in ("<<<M721>>>" ++ check (runes_of_ascii "
+packet a1 { @lengthOf( packetx ) A @lengthOf( T ) `tab	here`,zchar[// " ++ [128512]%N ++ runes_of_ascii " emoji
+42
+    //x
+    ] Header, // " ++ [128512]%N ++ runes_of_ascii " emoji
+@leftPad ( '0'
+)
+    match
+o
+as int
+    { 1 :
+    Logon ,} //x
+, repeat// trailing space 
+packetx `line1
+line2` ,string x
+    @calculatedFrom(
+    ""CRC32"" )
+, i8 repeatCount
+    `// not a comment` , match i64_ // a // b
+as x_y_z
+{
+    3
 :
-    pack , [
-    007 ]: Z9_ ""\" ++ [233]%N ++ runes_of_ascii """	: trueish ,
-} ,  int64
-i64_
-    // a // b
-    @calculatedFrom( ""\" ++ [233]%N ++ runes_of_ascii """ ) , }// @lengthOf(
+len , 4294967296
+    : u8x
+00	: crc
+,[ 10,
+007 ,3, 00
+/// triple
+// " ++ [27880; 37322]%N ++ runes_of_ascii "
+,""" ++ [128512]%N ++ runes_of_ascii """ , 0123456789,0123456789	] : tag	,	42  :
+// packet A { u8 x, }
+//
+repeatCount , }
+, @lengthOf( f32a
+    ) @lengthOf(
+    stringy ) @calculatedFrom( ""\" ++ [233]%N ++ runes_of_ascii """
+)
+    repeat i64 As// trailing space 
+,	@rightPad (
+    ) repeat  leftPad {
+uint32 crc
+    @calculatedFrom( """ ++ [233]%N ++ runes_of_ascii "t" ++ [233]%N ++ runes_of_ascii """) ,  }
+    , } MetaData Pad {  As
+pack ,
+    } root packet len{@calculatedFrom(  ""\" ++ [233]%N ++ runes_of_ascii """
+) int64 a1@calculatedFrom( ""CRC32"" )// `tick` ""quote"" 'q'
+,
+}
+// c
+")).
+Eval vm_compute in ("<<<M3676>>>" ++ check (runes_of_ascii "MetaData float {
+    stringy leftPad,
+}
+
+root packet a1 {
+    @lengthOf(matchKey)
+    char[] int `
+    `,
+    char[42] body `a\`,
+    @leftPad('0')
+    T {
+        zchar[1] u128 @lengthOf(repeatCount) `
+        `,// trailing space 
+    },
+    @lengthOf(msg_type)
+    repeat uint16 rootA,
+    @rightPad()
+    repeat metadata i64_ `two words`,
+    match leftPad as _x {
+        // @lengthOf(
+        /// triple
+        00 : charz,
+        7 : float,
+        // @lengthOf(
+        ""CRC32"" : float,
+        0123456789 : rootA,
+    },
+    rootA,
+    zchar[42] pack,
+    @lengthOf(trueish)
+    i64 Foo,//x
+    body `" ++ [28040; 24687; 31867; 22411]%N ++ runes_of_ascii "`,
+}
+
+packet T {
+    repeat Packet,
+    // trailing space 
+    // `tick` ""quote"" 'q'
+    char[] x `crlf
+    line`,
+    charz @lengthOf(pack),
+    char[0] As,
+    @calculatedFrom(""" ++ [28040; 24687]%N ++ runes_of_ascii """)
+    MetaDataX,
+}")).
+Eval vm_compute in ("<<<M403>>>" ++ check (runes_of_ascii "  options //x
+{options1= 65535
+; }	root  packet int { match string_ as u8x	{
+0123456789
+    // trailing space 
+    : zchar
+    , } ,
+zchar @calculatedFrom( """" ) `` ,
+    repeat T {  metadata@calculatedFrom(
+""x y"" ) , match
+    a1
+    as metadata { // @lengthOf(
+4294967296 : options1 , ""x y""
+    : i8i8 } , repeat leftPad
+    //
+    {	char[42 ] float , }
+    , }, @tag( 65535)
+    char[ 7
+    ]/// triple
+Pad,trueish,
+/// triple
+//
+Header { // @lengthOf(
+char[4294967296
+    ]
+    /// triple
+    repeatCount @calculatedFrom(""packet"" ) , // packet A { u8 x, }
+}, } MetaData float { repeatCount metadata `crlf
+line` ,asx lengthOf	, char[] roots
+`two words`  ,
+// trailing space 
+//
+string  Pad  ,
+    calculatedFrom
+/// triple
+// @lengthOf(
+zchar , char T
+    `a\`	, } /// triple")).
+Eval vm_compute in ("<<<M3208>>>" ++ check (runes_of_ascii "// top
+root // c0
+packet // c1
+msg_type // c2
+{ // c3
+i64 // c4
+options1 // c5
+, // c6
+@lengthOf( // c7
+f32a // c8
+) // c9
+repeat // c10
+uint16 // c11
+Foo // c12
+, // c13
+@calculatedFrom( // c14
+""x y"" // c15
+) // c16
+repeat // c17
+int64 // c18
+pack // c19
+, // c20
+@leftPad // c21
+( // c22
+' ' // c23
+) // c24
+uint8 // c25
+Foo // c26
+, // c27
+} // c28
+packet // c29
+rootA // c30
+{ // c31
+f32a // c32
+x // c33
+`two words` // c34
+, // c35
+char // c36
+asx // c37
+@lengthOf( // c38
+falsey // c39
+) // c40
+`u8 x,` // c41
+, // c42
+@lengthOf( // c43
+i64_ // c44
+) // c45
+uint16 // c46
+chars // c47
+, // c48
+@tag( // c49
+0 // c50
+) // c51
+string // c52
+_x // c53
+@calculatedFrom( // c54
+""abc"" // c55
+) // c56
+`// not a comment` // c57
+, // c58
+} // c59
+")).
+Eval vm_compute in ("<<<M3761>>>" ++ check (runes_of_ascii "
+
+  MetaData
+	o
+    {	uint8 asx ,  // " ++ [27880; 37322]%N ++ runes_of_ascii "
+
+  }MetaData 
+_x {
+A  Z9_ `a\`	,
+	}
+    packet 
+string_  {
+    repeat
+x_y_z
+f32a,charz 
+	//x
+    // " ++ [27880; 37322]%N ++ runes_of_ascii "
+  	{
+msg_type @lengthOf(
+
+A
+
+)
+
+    ,}
+	,
+uint16
+    stringy
+,  @calculatedFrom(
+    """ ++ [233]%N ++ runes_of_ascii "t" ++ [233]%N ++ runes_of_ascii """ )	leftPad
+    msg_type ,
+
+    @tag(7 
+)
+
+    @calculatedFrom(
+
+    //	t
+  	""" ++ [28040; 24687]%N ++ runes_of_ascii """
+)
+	i64_
+    ,
+repeat
+
+trueish
+    x
+
+`doc`  ,  uint16 metadata	//	t
+    @lengthOf( 
+i8i8
+)  `tab	here` 
 , repeat
-int64
-Foo ,@tag( 0123456789
-) u16	u8x , char[3]
-charz
-    `" ++ [233]%N ++ runes_of_ascii "` ,} MetaData pack
-    { //
-string pack
+
+    tag Logon
+
+    ,
+repeat repeatCount
+
+metadata
+	`` // a // b
+    	,  // trailing space 
+	}
+packet
+roots { 
+repeat  x_y_z {
+// `tick` ""quote"" 'q'
+	char[ 4294967296	]
+    stringy `line1
+line2`
+	,
+
+uint16
+body
+	,
+}  ,  @leftPad
+
+( ' ')  MetaDataX
+
+    stringy,
+
+} ")).
+Eval vm_compute in ("<<<M700>>>" ++ check (runes_of_ascii "packet tag// " ++ [27880; 37322]%N ++ runes_of_ascii "
+{
+@tag(65535 )//
+zchar[ 3 ]
+    metadata
+, }  root
+packet
+pack{
+@calculatedFrom( ""x y""
+    /// triple
+    ) a1 @calculatedFrom(""1"" ) `say ""hi""` // @lengthOf(
+,
+zchar @lengthOf(	packetx), @lengthOf( // " ++ [128512]%N ++ runes_of_ascii " emoji
+u128 )@tag( 42	) // packet A { u8 x, }
+@tag( 255 )
+    repeat char[7 ]
+    x_y_z `// not a comment`
+,match u128
+as rootA	{ ""packet"": // " ++ [128512]%N ++ runes_of_ascii " emoji
+tag , [""abc""
+    , ""a\""b"" , ""abc""	, 42,
+    ""1"" ,
+7 , ""// no comment"" ]:  matchKey, 007
+:	roots , 00 :
+// " ++ [27880; 37322]%N ++ runes_of_ascii "
+// " ++ [27880; 37322]%N ++ runes_of_ascii "
+i64_
+    , [""// no comment"" ]
+:
+    // c
+    a1 , } ,
+// " ++ [128512]%N ++ runes_of_ascii " emoji
+// @lengthOf(
+repeat
+Logon {
+    char[ 007
+] f32a
+    @lengthOf(	Header)
+//x
+// packet A { u8 x, }
+, } ,
+    // " ++ [128512]%N ++ runes_of_ascii " emoji
+    }")).
+Eval vm_compute in ("<<<M91>>>" ++ check (runes_of_ascii "options{
+T
+    =
+""x y"" ; } packet Z9_ { @leftPad
+    ('0' )
+int16
+Header @calculatedFrom(
+""1""
+    ) , options1 @lengthOf(
+    u8x )
+`// not a comment`
+,
+    @calculatedFrom(""// no comment"" ) @lengthOf(pack //	t
+) Header {
+i32 // trailing space 
+u
+`{ , }`
+, _x	, char[
+    7 ] crc @lengthOf(i64_)  ,
+    }
 // a // b
 // c
-, f32a
-Packet ,
-i64 u128 ,uint16 i8i8 , } // " ++ [128512]%N ++ runes_of_ascii " emoji")).
-Eval vm_compute in ("<<<M4108>>>" ++ check (runes_of_ascii "packet msg_type {
-    @rightPad('\x00')
-    calculatedFrom chars,
-}
-
-packet string_ {
-}
-
-MetaData o {
-    zchar[65535] a1,
-}
-
-root packet Foo {
-    f32a {
-        // " ++ [128512]%N ++ runes_of_ascii " emoji
-        match len as Packet {
-            [3] : body,
-            7 : o,
-            [00, 0, 42, ""x y""] : u,
-            """ ++ [28040; 24687]%N ++ runes_of_ascii """ : Pad,
-        },
-        i64 A,
-        string u8x,
-        match stringy as As {
-            65535 : i8i8,
-            //x
-            ""CRC32"" : u8x,
-            [
-                7, 0, 42, ""a\""b"", ""\n"",
-                ""{,}"", ""a\""b""
-            ] : MetaDataX,
-            [""abc""] : falsey,
-            // @lengthOf(
-            [""`tick`""] : calculatedFrom,
-        },
-    },
-}// " ++ [128512]%N ++ runes_of_ascii " emoji
-
-options {
-    body = ""CRC32"";
-    body = ""a\""b""
-    u128 = true;
-    BodyLength = 10;
-    leftPad = false;
-}")).
-Eval vm_compute in ("<<<M1010>>>" ++ check (runes_of_ascii "packet int { char[] // a // b
-crc`it's` , } packet metadata{pack
-    Logon , @tag( 00 )
-    len { repeat u8x
-leftPad`" ++ [28040; 24687; 31867; 22411]%N ++ runes_of_ascii "` ,
-repeat u16 i64_ , } , @lengthOf( x
-) repeat T MetaDataX`tab	here`
-    ,match
-    //x
-    matchKey
-    as lengthOf {
-""a\\""
-    :	_x ,	[/// triple
-255 , 00 // `tick` ""quote"" 'q'
-]: chars	,
-[ ""it's"",
-    0 ]// `tick` ""quote"" 'q'
-:
-    crc,0 :matchKey ,
-""\" ++ [233]%N ++ runes_of_ascii """
-// " ++ [128512]%N ++ runes_of_ascii " emoji
-// a // b
-: //
-rootA ""x y"" // trailing space 
-: leftPad,
-}
-    /// triple
-    , @tag(
-    255)float32 options1 @calculatedFrom( ""`tick`"") , @rightPad (  ) i64 Packet `it's` ,repeat zchar[ 255 ] metadata
-`tab	here` , /// triple
-@rightPad ( '\x00' )// trailing space 
-repeat i16 chars `" ++ [233]%N ++ runes_of_ascii "` , A
-/// triple
-// packet A { u8 x, }
+, // `tick` ""quote"" 'q'
+float
 @lengthOf(
-    // c
-    BodyLength ), }
-")).
-Eval vm_compute in ("<<<M4444>>>" ++ check (runes_of_ascii "
-
-  options {
-LittleEndian =
-false	;
-
-    StringPrefixLenType
-	=
-    u16 
-;  ArrayPrefixLenType  =  u32 ; 
-} packet Order{
-uint8 x ,
-	repeat
-string
-venue , } packet	Heartbeat { i64 count, zchar[
-1 
-]Qty 
-, repeat  InX29 { InSeqno26
-{ int64 f1 ,	char[ 5 ]
-Acct ,
-    Order  ,
-    }
-
+roots ) `it's`  , } packet stringy { @rightPad( '\x00' //
+) @rightPad ( //
+'0' )
+// " ++ [27880; 37322]%N ++ runes_of_ascii "
+// packet A { u8 x, }
+@calculatedFrom( """ ++ [28040; 24687]%N ++ runes_of_ascii """ ) string a1 ,
+    f32
+uint8x // packet A { u8 x, }
+@lengthOf( charz
+// c
+// " ++ [128512]%N ++ runes_of_ascii " emoji
+) `two words`
 ,
-repeat  InSide285 
-{
-repeat
-    Order,
-	char[  10
-    ]Px
-
-    ,zchar[9 ]  OrderId , 
-}
-
-    ,
-	char[]
-
-venue 
-, Order ,}
-	,
-	@rightPad
-    (
-'\x00' ) 
-char[
-    4
-
-    ] 
-clOrdID , } root
-
-packet	Party {
-
-zchar[
-
-    3
-    ]
-
-f1
-
-    ,u32 
-clOrdID , 
-u32
-Px
-    @lengthOf( Body),
-
-match clOrdID
-
-    as
-
-Body
-    {  [
-180 , 
-64
-    ]
-
-: 
-Heartbeat , 11
-: Order
-, 
-} , u32	Side2@calculatedFrom( ""CRC32""
-
-    ),	}
-
-")).
-Eval vm_compute in ("<<<M4022>>>" ++ check (runes_of_ascii "packet Header {
-    @lengthOf(o)
-    zchar[255] pack @lengthOf(len) `a\`,
-    @calculatedFrom(""" ++ [128512]%N ++ runes_of_ascii """)
-    repeat Foo {
-        float @lengthOf(asx),
-        repeat body,
-        repeat x {
-            As @lengthOf(Foo) `doc`,
-            string uint8x @lengthOf(msg_type),
-        },
-    },
-    @leftPad('0')
-    @rightPad('0')
-    x @calculatedFrom(""" ++ [233]%N ++ runes_of_ascii "t" ++ [233]%N ++ runes_of_ascii """),
-    @tag(00)
-    msg_type @calculatedFrom(""" ++ [128512]%N ++ runes_of_ascii """),
-    @tag(65535)
-    repeat x_y_z,
-    @tag(1)
-    // c
-    // " ++ [27880; 37322]%N ++ runes_of_ascii "
-    zchar[4294967296] matchKey,
-    packetx,
-    repeat charz packetx `line1
-    line2`,
-    int32 x @calculatedFrom(""\n""),
-}
-
-root packet int {
-    @leftPad()
-    char zchar @lengthOf(Pad) `// not a comment`,
-}//x")).
-Eval vm_compute in ("<<<M140>>>" ++ check (runes_of_ascii "options  { }
-MetaData metadata  {	float32 u128 `" ++ [28040; 24687; 31867; 22411]%N ++ runes_of_ascii "` ,
-}packet
-roots {
-i64 uint8x``
-// `tick` ""quote"" 'q'
-// `tick` ""quote"" 'q'
-, @tag(  3) // packet A { u8 x, }
-@tag(
-    0123456789	) stringy @lengthOf(Header )`u8 x,` , f64 u //x
-`tab	here`,  match  u8x as u8x
-    // `tick` ""quote"" 'q'
-    { 10 : string_ , }, zchar[
-7 ]  u@calculatedFrom( // a // b
-""packet"" ) ,  @leftPad
-    ( ) repeat asx _x
-    ,zchar[ // `tick` ""quote"" 'q'
-7] uint8x
-,body
-{repeat zchar[
-3]
-    As , string Header
+int32
+x_y_z	@lengthOf( string_  ) //	t
 ,
-    char[] u, }
-, repeat Logon{
-repeat zchar[65535 ] packetx `// not a comment` , }
-, } // packet A { u8 x, }
-MetaData
-msg_type{
-f64
-    crc	`{ , }`
-, }
+}
 ")).
-Eval vm_compute in ("<<<M3964>>>" ++ check (runes_of_ascii "options {
-    lengthOf = ""a\""b""
-    A = false;
-    repeatCount = 7;
-    body = true;
-}
+Eval vm_compute in ("<<<M3683>>>" ++ check (runes_of_ascii "  // top
+		root // c0
+	  packet
+    Frame 
 
-packet roots {
-    string f32a,
-}
+// c2
+{  // c3a
 
-root packet crc {
-    @rightPad('0')
-    zchar[42] zchar @calculatedFrom(""abc"") `// not a comment`,
-    f32 x_y_z,
-    repeat packetx `u8 x,`,
-    @lengthOf(tag)
-    f64 u8x ``,
-    char[] options1,
-    @lengthOf(matchKey)
-    Logon @calculatedFrom(""{,}"") `" ++ [28040; 24687; 31867; 22411]%N ++ runes_of_ascii "`,
-}
+// c3b
+    	u8 
+    // c4
 
-root packet falsey {
-    match matchKey as asx {
-        ""\" ++ [233]%N ++ runes_of_ascii """ : i64_,
-        [4294967296, ""a\\""] : falsey,
-        [
-            3, 7, 7, 0, 0,
-            ""// no comment"", ""CRC32"", ""// no comment""
-        ] : zchar,
-    },
-}")).
+	K 	 // c5
+    ,// c6a
+    // c6b
+    Logon	// c7
+first
+	    // c8
+	  ,
+
+// c9
+		match 	 // c10a
+  	// c10b
+    K
+as
+
+    // c12
+      Body{ 	 // c14
+		1	:	Logon 
+      // c17
+    ,// c18
+	2
+
+    : Logout
+,  
+  // c22
+    	}
+,  // c24
+	}
+packet  // c26
+    Logon// c27a
+	// c27b
+  {	// c28a
+  // c28b
+	  string	// c29a
+    	// c29b
+      user 
+	// c30
+  , // c31a
+
+// c31b
+  }// c32a
+// c32b
+
+packet// c33
+    	Logout
+	    // c34
+  {// c35a
+// c35b
+  u16	// c36a
+  	// c36b
+  reason
+    , 
+	// c38
+
+	}
+	    // c39
+")).
 Eval vm_compute in ("<<<M967>>>" ++ check (runes_of_ascii "root
 packet	Logon	{@tag( 3 )// @lengthOf(
 float64
@@ -1760,271 +1443,291 @@ root
     @lengthOf(roots// " ++ [128512]%N ++ runes_of_ascii " emoji
 ) , packetx ``,
     } // c")).
-Eval vm_compute in ("<<<M293>>>" ++ check (runes_of_ascii "root packet zchar { @rightPad (  ) repeat
-uint32 Pad  ,
-// a // b
-// c
-char[ 4294967296 ] f32a @calculatedFrom( """" )
-`u8 x,`
-, uint16 BodyLength @lengthOf( packetx)
-`it's`  , @calculatedFrom( ""a\\"" ) string falsey // c
-`a\`
-    , matchKey Packet`it's` , match trueish as matchKey
-{ ""\n"" : trueish [ ""\n"" ,
-3]
-    : len , [ 10  ] : Logon // `tick` ""quote"" 'q'
-0123456789
-: packetx ,  ""it's"" :
-Pad , 42
-// @lengthOf(
-// a // b
-:
-    falsey , } ,
-match metadata
-    as rootA { """ ++ [128512]%N ++ runes_of_ascii """ : Header ,
-255 : T ,0123456789 : tag
-    , ""x y""
-: MetaDataX ,} ,}")).
-Eval vm_compute in ("<<<M769>>>" ++ check (runes_of_ascii "packet// packet A { u8 x, }
-MetaDataX{ zchar[ 00
-] // `tick` ""quote"" 'q'
-_x `" ++ [233]%N ++ runes_of_ascii "`	, @lengthOf(
-T )  uint32
-    asx @lengthOf(
-x ) ,
-float32 tag @lengthOf( Z9_), match uint8x
-as options1 {
-""" ++ [28040; 24687]%N ++ runes_of_ascii """ // " ++ [27880; 37322]%N ++ runes_of_ascii "
-:
-    len , 4294967296 :
-As , [  0
-, """ ++ [233]%N ++ runes_of_ascii "t" ++ [233]%N ++ runes_of_ascii """  ,00
-,""" ++ [233]%N ++ runes_of_ascii "t" ++ [233]%N ++ runes_of_ascii """ , ""\n""  ,
-0 , 0123456789
-    //
-    ] :
-int } , zchar[
-007 ]
-    rootA @lengthOf( asx ) ,char[] Packet@calculatedFrom( ""it's"" ) ,
-@lengthOf(
-x )
-    @tag( 3 )
-@tag(7 )
-    repeat zchar[//
-007 ]
-    As// " ++ [27880; 37322]%N ++ runes_of_ascii "
-`" ++ [28040; 24687; 31867; 22411]%N ++ runes_of_ascii "` , @lengthOf(
-packetx  ) Pad
-    // @lengthOf(
-    ,}
-")).
-Eval vm_compute in ("<<<M3879>>>" ++ check (runes_of_ascii "root packet a1 {
-    int16 u8x,
-    match pack as i8i8 {
-        ""packet"" : i64_,
-        [
-            1, 7, 007, 0123456789, 0,
-            """ ++ [233]%N ++ runes_of_ascii "t" ++ [233]%N ++ runes_of_ascii """
-        ] : chars,
-        [
-            7, 007, 0, ""a\\"", ""a\""b"",
-            ""// no comment""
-        ] : A,
-    },
-    int64 metadata,
-    @lengthOf(roots)
-    len,
-    repeat As `it's`,//	t
-    repeat calculatedFrom {
-        repeat options1 stringy,
-        calculatedFrom matchKey `" ++ [28040; 24687; 31867; 22411]%N ++ runes_of_ascii "`,
-        float32 options1 @lengthOf(float),
-    },
-}")).
-Eval vm_compute in ("<<<M3844>>>" ++ check (runes_of_ascii "
-root	packet  roots 
-{
+Eval vm_compute in ("<<<M4303>>>" ++ check (runes_of_ascii "  packet 
+u128
 
-i8i8 @calculatedFrom( ""abc""	)
-    , repeat
-    uint32
+{  string	MetaDataX
+    @lengthOf(
+	matchKey
 
-matchKey`doc` ,
+    )
 
-char[	255 ] 
-A
-    @lengthOf( 
-calculatedFrom)
-	`{ , }` 	 // c
+, 
+@lengthOf(  calculatedFrom)
+// " ++ [128512]%N ++ runes_of_ascii " emoji
 
-, crc 	 //x
+// " ++ [128512]%N ++ runes_of_ascii " emoji
+    string// packet A { u8 x, }
+  uint8x`it's`
+
+    ,  As
+@calculatedFrom(
+
+""" ++ [233]%N ++ runes_of_ascii "t" ++ [233]%N ++ runes_of_ascii """ )
+,
+    } MetaData	repeatCount
+
     { 
-A
+        // c
+zchar[	7	]
+	msg_type	// " ++ [128512]%N ++ runes_of_ascii " emoji
+	  , 	 // @lengthOf(
+string
 
-    Header  `
-`
-,char[]	o
-    ,
-    repeat  zchar[  1	] 	 //x
-body	`" ++ [233]%N ++ runes_of_ascii "`	, 	 //	t
-	}, int8
-u ,
+    trueish
+    , u
 
-    match
-packetx
+As
 
-    as  u { [ 	 /// triple
-      0 
-        // a // b
-  ,""`tick`""
-]
+`doc`, zchar	T
+, string	roots// c
+`doc` , }
 
-:Packet	//
-    , 
-""\" ++ [233]%N ++ runes_of_ascii """ 
+    root  packet	o 	 //
+{
+    repeat  zchar[
+    007 
+// a // b
+	//x
 
-/// triple
-		:
+  ]  u8x
 
-Packet, 
-[ 
+, 
+repeat 
+char[
 4294967296
-    ] 
-: 
-matchKey
-,}	,
+]
+x
+	,
 
+    u8x`{ , }`
+
+,
     } ")).
-Eval vm_compute in ("<<<M427>>>" ++ check (runes_of_ascii "packet asx{
-    //	t
-    repeat
-float64
-    uint8x //
-,}	packet u128 // packet A { u8 x, }
-{ BodyLength , match
-BodyLength as
-    metadata {0123456789 : calculatedFrom [
-10, ""packet""
-,
-// @lengthOf(
-// @lengthOf(
-""// no comment"" , ""CRC32"" ,
+Eval vm_compute in ("<<<M400>>>" ++ check (runes_of_ascii "packet
+i64_ {
+@lengthOf( Foo ) // `tick` ""quote"" 'q'
+@lengthOf(
+    calculatedFrom) o
+    /// triple
+    @calculatedFrom( ""{,}"" ) , uint16 lengthOf@calculatedFrom( // a // b
+""" ++ [128512]%N ++ runes_of_ascii """) , char[ 007 ] trueish ,  @tag(
+    // c
+    00
     // `tick` ""quote"" 'q'
-    """ ++ [128512]%N ++ runes_of_ascii """ , 10,
-""\n"" ] : BodyLength , 42 // " ++ [27880; 37322]%N ++ runes_of_ascii "
-:crc
-,
-""packet""
-// `tick` ""quote"" 'q'
-// " ++ [27880; 37322]%N ++ runes_of_ascii "
-: x_y_z
+    )	@tag( //	t
+007 )
 // a // b
 // " ++ [128512]%N ++ runes_of_ascii " emoji
-,	[ 3 ,  ""x y""// a // b
-,""packet"" , 3 ,
-    ""1"" ]: asx , }
-,}
+float @calculatedFrom( ""\n"" ),
+charz A
+    ,Logon @calculatedFrom( ""// no comment""  )
+`
+` // " ++ [27880; 37322]%N ++ runes_of_ascii "
+,@lengthOf( msg_type ) BodyLength As `a\` , zchar[// @lengthOf(
+10]
+zchar @calculatedFrom( """" // trailing space 
+)
+`doc`, }
 ")).
-Eval vm_compute in ("<<<M3752>>>" ++ check (runes_of_ascii "packet calculatedFrom {
-    @lengthOf(crc)
-    string a1 `say ""hi""`,
-    repeat int64 float `" ++ [28040; 24687; 31867; 22411]%N ++ runes_of_ascii "`,
-    @calculatedFrom(""`tick`"")
-    BodyLength @calculatedFrom(""packet""),
-    char[65535] pack,
-}
-
-packet Logon {
-    u falsey,
-    repeat i8i8,
-    calculatedFrom @calculatedFrom(""" ++ [28040; 24687]%N ++ runes_of_ascii """),
-    // c
-    repeat A As,
-}
-
-MetaData uint8x {
-    matchKey T `" ++ [233]%N ++ runes_of_ascii "`,
-    o T,
-    char[00] int `crlf
-    line`,
-    char[3] pack,
-    len a1 `say ""hi""`,
-}")).
-Eval vm_compute in ("<<<M770>>>" ++ check (runes_of_ascii "
-packet
-T //x
-{ matchKey Header
-,
+Eval vm_compute in ("<<<M1393>>>" ++ check (runes_of_ascii "MetaData T {
 //
-/// triple
-zchar[
-3 ]
+// @lengthOf(
+u64 BodyLength `say ""hi""` , i16
 a1,
-// packet A { u8 x, }
-// trailing space 
-} MetaData
-matchKey
-{
-    // " ++ [27880; 37322]%N ++ runes_of_ascii "
-    f64 f32a`two words`
-, zchar[
-    255
-    ] Logon
-// `tick` ""quote"" 'q'
-// packet A { u8 x, }
-`{ , }` , zchar[ // `tick` ""quote"" 'q'
-1 ] calculatedFrom , msg_type
-// `tick` ""quote"" 'q'
-// a // b
-MetaDataX
-`{ , }` //x
-, a1 lengthOf `say ""hi""` ,
-    }root
-    packet pack{x	int , }
+    int64 msg_type `// not a comment`
+, x_y_z zchar,u64
+T, float32 calculatedFrom
+,
+    } packet Logon{ @lengthOf( options1 )
+    int64 x @lengthOf(
+Z9_ )  `{ , }`,} packet
+    lengthOf{
+    // `tick` ""quote"" 'q'
+    @calculatedFrom(""`tick`"" ) A // `tick` ""quote"" 'q'
+`" ++ [233]%N ++ runes_of_ascii "`// `tick` ""quote"" 'q'
+, falsey lengthOf , @lengthOf( x_y_z)  @lengthOf( options1 ) char[ 4294967296
+    ]
+body @calculatedFrom( """ ++ [28040; 24687]%N ++ runes_of_ascii """)
+    // c
+    ,}
 ")).
-Eval vm_compute in ("<<<M762>>>" ++ check (runes_of_ascii "options {} packet u {u @lengthOf( // @lengthOf(
-crc ),  @tag( 65535
-) T @calculatedFrom(
-""// no comment"" ) , // packet A { u8 x, }
-pack MetaDataX
-,	repeat float , @lengthOf( chars
-)//	t
-char[] charz	,
-    match // packet A { u8 x, }
-T	as Z9_{//
-7 :
-    asx }
-,zchar[ 65535 ] a1 @lengthOf( T	)
-    ,	match A as tag
-{ ""x y"" :
-repeatCount 0
-:
-u8x ,
-[ ""a	b"" ] :matchKey ,
-    42: repeatCount , } , }
-")).
-Eval vm_compute in ("<<<M986>>>" ++ check (runes_of_ascii "//
-packet asx { // c
-match rootA
-    as
-u8x
-    {
-0123456789 :  As, } , @lengthOf(zchar ) i32 Z9_
-    @calculatedFrom(
-""`tick`""// packet A { u8 x, }
-)	, repeat
-string_ //x
-{  repeat zchar[00] Logon `a\`, u16 packetx `` , } , _x ,repeat
-string
-    msg_type ,
-u64 chars @lengthOf( chars)
-    , asx falsey
-    `tab	here` /// triple
-,i32 u,
-//
-// trailing space 
-} MetaData charz {
+Eval vm_compute in ("<<<M3591>>>" ++ check (runes_of_ascii "packet charz {
+    @lengthOf(x_y_z)
+    match msg_type as msg_type {
+        ""a	b"" : packetx,
+    },
+    repeat zchar[255] i8i8 `tab	here`,
+    char[255] i8i8 @lengthOf(i64_),
+}
+
+root packet matchKey {
+    zchar[3] body `crlf
+        line`,
+    @calculatedFrom(""x y"")
+    char[00] leftPad `u8 x,`,
+}// packet A { u8 x, }
+
+packet u8x {
+    @tag(00)
+    metadata {
+        repeat lengthOf {
+            zchar[0] _x @calculatedFrom(""it's"") `say ""hi""`,
+        },
+    },
 }")).
+Eval vm_compute in ("<<<M4307>>>" ++ check (runes_of_ascii "
+
+  packet x_y_z {
+	@calculatedFrom( """"
+    )
+    repeat 
+    // `tick` ""quote"" 'q'
+	// `tick` ""quote"" 'q'
+  _x 
+f32a
+, @calculatedFrom(""it's"" ) chars 
+      // c
+  // `tick` ""quote"" 'q'
+,
+    int32
+u8x 	 // `tick` ""quote"" 'q'
+    ,  // c
+	  }options 
+      // " ++ [128512]%N ++ runes_of_ascii " emoji
+	{  crc
+
+    =
+
+    """ ++ [233]%N ++ runes_of_ascii "t" ++ [233]%N ++ runes_of_ascii """
+
+    }
+root 
+packet
+
+string_ { }
+packet x
+{
+u8x
+
+Packet  , i32
+	float 
+, 
+}
+options
+
+    {
+	Pad
+
+    = 
+4294967296
+;leftPad
+=  """ ++ [233]%N ++ runes_of_ascii "t" ++ [233]%N ++ runes_of_ascii """
+	}")).
+Eval vm_compute in ("<<<M817>>>" ++ check (runes_of_ascii "
+packet As //x
+{ repeatCount @lengthOf(tag // trailing space 
+)	, trueish {i64 a1 //	t
+,Z9_ @calculatedFrom(""CRC32""	) , char[
+    42 ] rootA // c
+, repeat/// triple
+u128 _x ,}
+, @lengthOf(
+    string_ //	t
+) i8
+    falsey ,	@leftPad (' ' ) @rightPad (' ' ) match // @lengthOf(
+calculatedFrom as  leftPad { 65535 :
+leftPad
+[
+00
+,
+1 , ""\n"" ,
+1 ,3
+// " ++ [27880; 37322]%N ++ runes_of_ascii "
+// a // b
+]
+: repeatCount , [
+    // " ++ [27880; 37322]%N ++ runes_of_ascii "
+    """ ++ [128512]%N ++ runes_of_ascii """ ,42 ] : i8i8, },} // " ++ [128512]%N ++ runes_of_ascii " emoji")).
+Eval vm_compute in ("<<<M100>>>" ++ check (runes_of_ascii "packet roots {
+    } packet metadata {
+    @lengthOf( u) @tag(00 )
+@lengthOf( Pad )  T @lengthOf( pack ),@rightPad
+( '0' )lengthOf , @lengthOf(  u) char[]
+    //
+    A ,
+match  Packet as // `tick` ""quote"" 'q'
+a1{007
+: leftPad 65535
+    :// trailing space 
+msg_type , ""a\\"" :
+// " ++ [128512]%N ++ runes_of_ascii " emoji
+// @lengthOf(
+Z9_ """ ++ [233]%N ++ runes_of_ascii "t" ++ [233]%N ++ runes_of_ascii """
+: A , ""// no comment""	:x_y_z,
+4294967296 : a1
+    ,/// triple
+} ,f32	T
+    , f64 roots	@lengthOf( int ), }")).
+Eval vm_compute in ("<<<M3472>>>" ++ check (runes_of_ascii "// top
+packet // c0a
+  // c0b
+A { // c2
+u8 // c3a
+  // c3b
+a
+    // c4
+, // c5
+} // c6a
+  // c6b
+packet B // c8a
+  // c8b
+{
+    // c9
+u16 b // c11
+, // c12a
+  // c12b
+} root // c14
+packet // c15
+P { // c17
+u8 // c18a
+  // c18b
+K , // c20
+match // c21
+K
+    // c22
+as // c23
+M { // c25
+1
+    // c26
+: // c27a
+  // c27b
+A // c28
+, 1 // c30
+: B // c32a
+  // c32b
+, // c33a
+  // c33b
+} // c34
+, // c35
+} ")).
+Eval vm_compute in ("<<<M90>>>" ++ check (runes_of_ascii "options{ calculatedFrom
+= '0'; }
+root
+    // " ++ [128512]%N ++ runes_of_ascii " emoji
+    packet metadata{i64 float@calculatedFrom( ""1"" )	,	@rightPad ( // trailing space 
+) Logon u `crlf
+line` , // trailing space 
+falsey Packet `line1
+line2` , u32	a1  `tab	here`, } // " ++ [128512]%N ++ runes_of_ascii " emoji
+options { lengthOf
+    // packet A { u8 x, }
+    = '\x00'
+msg_type =
+uint8;repeatCount
+    // `tick` ""quote"" 'q'
+    =
+0123456789 ; } //x")).
 Eval vm_compute in ("<<<M203>>>" ++ check (runes_of_ascii "/// triple
 packet Logon
 { char[
@@ -2052,91 +1755,65 @@ len Logon //x
     char
     body, }
 ")).
-Eval vm_compute in ("<<<M4152>>>" ++ check (runes_of_ascii "
-packet
-
-    As
-    {
-@leftPad ( )
-
-@leftPad(	' '
-
-    )	char[] zchar , A
-string_`" ++ [233]%N ++ runes_of_ascii "`	,  a1 {
-	Z9_
-	@lengthOf(repeatCount  )
-,
-    u128
-
-    { 
-zchar[
-
-4294967296 ]
-	crc 
-
-    //x
-  //
-	@calculatedFrom(	""packet"" )
-    , 
-repeat char 
-x_y_z  ,	}  ,
-u8
-Logon	@calculatedFrom(
-
-""" ++ [233]%N ++ runes_of_ascii "t" ++ [233]%N ++ runes_of_ascii """ )
-
-    ,
-    } 
-, 
-}
-
-    packet	u 
-{
-    } 	 // " ++ [128512]%N ++ runes_of_ascii " emoji
- 
+Eval vm_compute in ("<<<M543>>>" ++ check (runes_of_ascii "packet string_ // " ++ [27880; 37322]%N ++ runes_of_ascii "
+{ match
+    //	t
+    Pad as Z9_{
+    [42 ] :trueish ,
+    // trailing space 
+    }
+, float32
+x `u8 x,`	, @leftPad	( '\x00' )	o @lengthOf(
+    x_y_z )
+, msg_type @lengthOf(
+//x
+// `tick` ""quote"" 'q'
+u ) `line1
+line2`// `tick` ""quote"" 'q'
+, @calculatedFrom(""a\\"" )  int @calculatedFrom( ""packet"" ),  BodyLength `// not a comment` ,}
 ")).
-Eval vm_compute in ("<<<M4376>>>" ++ check (runes_of_ascii "options {
-    BodyLength = ""{,}""
-    tag = ""// no comment"";
-}
-
-options {
-    charz = '\x00';// a // b
-    repeatCount = 255;
-    _x = """ ++ [128512]%N ++ runes_of_ascii """;
-    Foo = '0'
-    a1 = '0'
-}
-
-root packet falsey {
-    i64 packetx @lengthOf(Header) `" ++ [28040; 24687; 31867; 22411]%N ++ runes_of_ascii "`,
-    len @lengthOf(roots) `a\`,
-    zchar @lengthOf(MetaDataX) `line1
-        line2`,
-}// packet A { u8 x, }")).
-Eval vm_compute in ("<<<M52>>>" ++ check (runes_of_ascii "// `tick` ""quote"" 'q'
-root packet u128{Z9_ { match trueish // c
-as rootA { [	""abc"" , ""{,}""
-,// c
-0 ]
-: MetaDataX [
-""a\""b""
-]
-: tag ,
-""CRC32"" :
+Eval vm_compute in ("<<<M122>>>" ++ check (runes_of_ascii "root packet u128{} root packet
+charz {// packet A { u8 x, }
+@tag( 7
+    )MetaDataX	, _x { uint32
+As,
+    charz ,}	,
+len {  int64	u128 , repeat falsey
+{x_y_z@lengthOf(
+asx )
 //	t
-/// triple
-options1 ,
-    [
-    """ ++ [28040; 24687]%N ++ runes_of_ascii """,
-""a\\"" ] :
-lengthOf
-    , ""a\""b""
-: chars ,
-    } , }
+// c
+, // c
+}
+,repeatCount
+    {	metadata
+@calculatedFrom( ""\n""
+) `doc` , Logon Foo
+// trailing space 
+// " ++ [128512]%N ++ runes_of_ascii " emoji
+,} // " ++ [27880; 37322]%N ++ runes_of_ascii "
 ,
-    @rightPad( '0'	) @calculatedFrom( ""CRC32"" ) char[00 ] packetx,
-} // a // b")).
+float  rootA , }
+, }
+// a // b
+")).
+Eval vm_compute in ("<<<M488>>>" ++ check (runes_of_ascii "root packet // " ++ [128512]%N ++ runes_of_ascii " emoji
+charz
+    { @calculatedFrom( ""x y"" ) zchar[ 0 ] u128
+    @calculatedFrom( ""x y"" ) , u16 MetaDataX ,
+zchar[ 0123456789] u128 , uint16 u128
+,  @lengthOf(
+    int
+) _x Foo
+    `
+`,zchar[	00
+    ]
+o
+@calculatedFrom( /// triple
+""packet"" )  ,rootA `doc`,
+    char[]msg_type @calculatedFrom(""" ++ [233]%N ++ runes_of_ascii "t" ++ [233]%N ++ runes_of_ascii """
+) , }
+")).
 Eval vm_compute in ("<<<M449>>>" ++ check (runes_of_ascii "//x
 packet int {	repeat options1 falsey , @lengthOf( // " ++ [128512]%N ++ runes_of_ascii " emoji
 roots)	f32
@@ -2156,61 +1833,14 @@ As @calculatedFrom( ""1""
     /// triple
     Logon @calculatedFrom( ""a\\"" )	, }
 ")).
-Eval vm_compute in ("<<<M3286>>>" ++ check (runes_of_ascii "// top
-packet // c0
-u128 // c1
-{ // c2
-@lengthOf( // c3
-body // c4
-) // c5
-match // c6
-x_y_z // c7
-as // c8
-u // c9
-{ // c10
-""x y"" // c11
-: // c12
-i8i8 // c13
-, // c14
-} // c15
-, // c16
-@tag( // c17
-255 // c18
-) // c19
-char[] // c20
-roots // c21
-@lengthOf( // c22
-int // c23
-) // c24
-, // c25
-} // c26
-")).
-Eval vm_compute in ("<<<M1500>>>" ++ check (runes_of_ascii "root packet Foo // " ++ [128512]%N ++ runes_of_ascii " emoji
+Eval vm_compute in ("<<<M1495>>>" ++ check (runes_of_ascii "root packet Foo // " ++ [128512]%N ++ runes_of_ascii " emoji
 { } options {
     // a // b
     tag // `tick` ""quote"" 'q'
 = //	t
 """"
     ; u8x = zchar[0  ] }
-MetaData
-    int int {zchar[ 10]
-lengthOf	`` , i64 u8x`// not a comment` ,MetaDataX pack// `tick` ""quote"" 'q'
-`crlf
-line`
-, Logon charz `crlf
-line`
-    ,
-    // a // b
-    }
-")).
-Eval vm_compute in ("<<<M1480>>>" ++ check (runes_of_ascii "root packet Foo // " ++ [128512]%N ++ runes_of_ascii " emoji
-{ } options {
-    // a // b
-    tag // `tick` ""quote"" 'q'
-= //	t
-""""
-    ; u8x = zchar[0 0  ] }
-MetaData
+MetaData MetaData
     int {zchar[ 10]
 lengthOf	`` , i64 u8x`// not a comment` ,MetaDataX pack// `tick` ""quote"" 'q'
 `crlf
@@ -2221,12 +1851,12 @@ line`
     // a // b
     }
 ")).
-Eval vm_compute in ("<<<M1412>>>" ++ check (runes_of_ascii "packet root Foo // " ++ [128512]%N ++ runes_of_ascii " emoji
+Eval vm_compute in ("<<<M1457>>>" ++ check (runes_of_ascii "root packet Foo // " ++ [128512]%N ++ runes_of_ascii " emoji
 { } options {
     // a // b
     tag // `tick` ""quote"" 'q'
 = //	t
-""""
+false
     ; u8x = zchar[0  ] }
 MetaData
     int {zchar[ 10]
@@ -2239,31 +1869,13 @@ line`
     // a // b
     }
 ")).
-Eval vm_compute in ("<<<M1571>>>" ++ check (runes_of_ascii "root packet Foo // " ++ [128512]%N ++ runes_of_ascii " emoji
+Eval vm_compute in ("<<<M1608>>>" ++ check (runes_of_ascii "root packet Foo // " ++ [128512]%N ++ runes_of_ascii " emoji
 { } options {
     // a // b
     tag // `tick` ""quote"" 'q'
 = //	t
 """"
-    ; u8x = zchar[0  ] }
-MetaData
-    int {zchar[ 10]
-lengthOf	`` , i64 u8x`// not a comment` ,MetaDataX pack// `tick` ""quote"" 'q'
-,
-`crlf
-line` Logon charz `crlf
-line`
-    ,
-    // a // b
-    }
-")).
-Eval vm_compute in ("<<<M1454>>>" ++ check (runes_of_ascii "root packet Foo // " ++ [128512]%N ++ runes_of_ascii " emoji
-{ } options {
-    // a // b
-    tag // `tick` ""quote"" 'q'
-= //	t
-
-    ; u8x = zchar[0  ] }
+    ; u8x = ? zchar[0  ] }
 MetaData
     int {zchar[ 10]
 lengthOf	`` , i64 u8x`// not a comment` ,MetaDataX pack// `tick` ""quote"" 'q'
@@ -2275,513 +1887,521 @@ line`
     // a // b
     }
 ")).
-Eval vm_compute in ("<<<M1509>>>" ++ check (runes_of_ascii "root packet Foo // " ++ [128512]%N ++ runes_of_ascii " emoji
+Eval vm_compute in ("<<<M1456>>>" ++ check (runes_of_ascii "root packet Foo // " ++ [128512]%N ++ runes_of_ascii " emoji
 { } options {
     // a // b
     tag // `tick` ""quote"" 'q'
 = //	t
-""""
-    ; u8x = zchar[0  ] }
-MetaData
-    int { 10]
-lengthOf	`` , i64 u8x`// not a comment` ,MetaDataX pack// `tick` ""quote"" 'q'
-`crlf
-line`
-, Logon charz `crlf
-line`
-    ,
-    // a // b
-    }
-")).
-Eval vm_compute in ("<<<M3553>>>" ++ check (runes_of_ascii "
-options {
-
-LittleEndian
-    = true;}packet
-
-    Logon
-	{ 
-u8 x ,  string
-    user,
-} packet	Logout
-{
-    u16 reason
-,
-}packet
-    Empty
-{
-}
-	root
-packet Frame  {
-	u16
-	MsgType  , @lengthOf( Body
-    )
-	u8 
-BodyLen,	u8
-flags
-, 
-Logon
-
-    Body , u32 trailer ,
-
-    }")).
-Eval vm_compute in ("<<<M3497>>>" ++ check (runes_of_ascii "  packet 
-P1{
-
-    u8
-
-a 
-,}	packet
-P2 {
-    P1	,} packet
-P3 {
-P2
-,
-P1	,}  packet
-    P4
-
-    {
-repeat P3
-,	P2 ,}
-root	packet P5
-
-{ 
-P4,
-
-    P3
-
-,P1 ,	u8  K
-
-    ,
-    match  K	as  Body	{
-
-4 :	P4
-
-,	3
-:P3
-
-    , 
-2 : P2
-
-,
-    1
-:
-
-P1 ,
-
-    } ,} ")).
-Eval vm_compute in ("<<<M106>>>" ++ check (runes_of_ascii "// " ++ [27880; 37322]%N ++ runes_of_ascii "
-options //x
-{ msg_type
-//x
-//	t
-= '0'} packet _x { // `tick` ""quote"" 'q'
-@tag( 00  ) @tag(1)	char[] a1
-,
-// packet A { u8 x, }
-/// triple
-} packet float
-//	t
-// " ++ [128512]%N ++ runes_of_ascii " emoji
-{ }
-//	t
-// packet A { u8 x, }
-MetaData
-    // `tick` ""quote"" 'q'
-    Foo {
-}")).
-Eval vm_compute in ("<<<M1335>>>" ++ check (runes_of_ascii "root
-    packet BodyLength
-{// " ++ [128512]%N ++ runes_of_ascii " emoji
-@leftPad ('\x00' //
-) zchar[ 4294967296] zchar , int64 x_y_z , @lengthOf( f32a )
-    // `tick` ""quote"" 'q'
-    @calculatedFrom(
-""abc"" ) @lengthOf(
-    calculatedFrom )  char[ 0]tag
-, falsey , } // a // b")).
-Eval vm_compute in ("<<<M4080>>>" ++ check (runes_of_ascii "root packet len {
-    @rightPad('0')
-    T {
-        /// triple
-        // c
-        match charz as crc {
-            3 : BodyLength,
-            42 : stringy,
-            ""a\\"" : options1,
-            // c
-        },
-    },
-}// a // b")).
-Eval vm_compute in ("<<<M4272>>>" ++ check (runes_of_ascii "options {
-    falsey = ""a	b"";
-    leftPad = '0';
-    o = float64
-}
-
-packet x {
-    match f32a as uint8x {
-        [
-            255, 7, 42, 7, 255,
-            0, ""abc"", ""1""
-        ] : matchKey,
-    },
-}// packet A { u8 x, }")).
-Eval vm_compute in ("<<<M2293>>>" ++ check (runes_of_ascii "MetaData Packet { }packet	asx  { @lengthOf( asx) falsey`crlf
-line`
-,
-    }
-    packet x	string uint32// @lengthOf(
-rootA	,u32 options1 `say ""hi""` , @tag( 7
-    )// packet A { u8 x, }
-msg_type @lengthOf(
-stringy	)	, }
-
-")).
-Eval vm_compute in ("<<<M2271>>>" ++ check (runes_of_ascii "MetaData Packet { }packet	asx  { @lengthOf( asx) falsey`crlf
-line`
-, ,
-    }
-    packet x	{uint32// @lengthOf(
-rootA	,u32 options1 `say ""hi""` , @tag( 7
-    )// packet A { u8 x, }
-msg_type @lengthOf(
-stringy	)	, }
-
-")).
-Eval vm_compute in ("<<<M2391>>>" ++ check (runes_of_ascii "MetaData Packet { }packet	asx  { @lengthOf( asx) falsey`crlf
-line`
-,
-    }
-    packet x	{|uint32// @lengthOf(
-rootA	,u32 options1 `say ""hi""` , @tag( 7
-    )// packet A { u8 x, }
-msg_type @lengthOf(
-stringy	)	, }
-
-")).
-Eval vm_compute in ("<<<M2362>>>" ++ check (runes_of_ascii "MetaData Packet { }packet	asx  { @lengthOf( asx) falsey`crlf
-line`
-,
-    }
-    packet x	{uint32// @lengthOf(
-rootA	,u32 options1 `say ""hi""` , @tag( 7
-    )// packet A { u8 x, }
-msg_type @lengthOf(
-stringy	,	) }
-
-")).
-Eval vm_compute in ("<<<M2235>>>" ++ check (runes_of_ascii "MetaData Packet { }packet	  { @lengthOf( asx) falsey`crlf
-line`
-,
-    }
-    packet x	{uint32// @lengthOf(
-rootA	,u32 options1 `say ""hi""` , @tag( 7
-    )// packet A { u8 x, }
-msg_type @lengthOf(
-stringy	)	, }
-
-")).
-Eval vm_compute in ("<<<M917>>>" ++ check (runes_of_ascii "options { uint8x = ""\n"" ;
-// " ++ [128512]%N ++ runes_of_ascii " emoji
-// packet A { u8 x, }
-}packet
-    //
-    repeatCount {
-roots
-len ,
-@lengthOf( f32a )
-    // `tick` ""quote"" 'q'
-    o `say ""hi""` ,
-    }//	t
-options //x
-{ a1 = u32 ; }
-")).
-Eval vm_compute in ("<<<M2265>>>" ++ check (runes_of_ascii "MetaData Packet { }packet	asx  { @lengthOf( asx) falsey
-,
-    }
-    packet x	{uint32// @lengthOf(
-rootA	,u32 options1 `say ""hi""` , @tag( 7
-    )// packet A { u8 x, }
-msg_type @lengthOf(
-stringy	)	, }
-
-")).
-Eval vm_compute in ("<<<M4442>>>" ++ check (runes_of_ascii "root packet BodyLength {
-    @rightPad(' ')
-    f32 _x @lengthOf(Header) `" ++ [28040; 24687; 31867; 22411]%N ++ runes_of_ascii "`,
-    @lengthOf(crc)
-    @tag(007)
-    char[] a1,
-}
-
-packet metadata {
-    Foo @calculatedFrom(""\n""),
-    char _x,
-}")).
-Eval vm_compute in ("<<<M3953>>>" ++ check (runes_of_ascii "// " ++ [128512]%N ++ runes_of_ascii " emoji
-MetaData Foo {
-}
-
-MetaData x {
-}
-
-MetaData zchar {
-    options1 f32a,
-    int32 stringy,
-    string msg_type `
-    `,
-    string T,
-    a1 trueish `{ , }`,
-    f32 BodyLength,
-}")).
-Eval vm_compute in ("<<<M1337>>>" ++ check (runes_of_ascii "MetaData options1
-    { packetx x`
-`, //	t
-}
-    options{
-    x_y_z =true options1
-    = char[]// trailing space 
 ;
-    body =
-65535/// triple
-lengthOf =	""it's"" ;
-x = '\x00'
-}
-")).
-Eval vm_compute in ("<<<M3793>>>" ++ check (runes_of_ascii "root packet	BodyLength  {  }	// `tick` ""quote"" 'q'
-    root 
-    // `tick` ""quote"" 'q'
-  	packet
-    f32a 	 // c
-	{
-	@leftPad ('0'
-    ) 
-    //
-
-int8
-
-    Z9_
-,  }
-")).
-Eval vm_compute in ("<<<M374>>>" ++ check (runes_of_ascii "
-packet
-// " ++ [27880; 37322]%N ++ runes_of_ascii "
-// c
-MetaDataX
-{ repeat repeatCount i64_ , T `crlf
-line`,	}packet As
-    {
-    @tag( 10
-) @lengthOf(
-    u8x
-//
-// @lengthOf(
-) zchar[ 7 ] Foo , }
-")).
-Eval vm_compute in ("<<<M3600>>>" ++ check (runes_of_ascii "
-root packet/// trip" ++ [65279]%N ++ runes_of_ascii "le
-
-rootA {i32
-    MetaDataX @calculatedFrom(
-	""CRC32"" )  `line1
-line2`
-,
-
-}
+    """" u8x = zchar[0  ] }
 MetaData
-BodyLength
-
-    {
-u8 
-rootA
-
-    ,	}  // c
- 
-")).
-Eval vm_compute in ("<<<M3476>>>" ++ check (runes_of_ascii "packet
-A
-
-{ u8
-
-    a
-    ,
-
-}
-	packet
-B
-{
-u16 b
-,
-    }
-    root
-packet P{
-u8
-K  ,match K	as M
-	{
-[ 1 ,
-	2
-] : A , 3	: B , 
-7 
-:	A, 
-} , }
-")).
-Eval vm_compute in ("<<<M2378>>>" ++ check (runes_of_ascii "MetaData Packet { }packet	asx  { @lengthOf( asx) falsey`crlf
+    int {zchar[ 10]
+lengthOf	`` , i64 u8x`// not a comment` ,MetaDataX pack// `tick` ""quote"" 'q'
+`crlf
 line`
-,
-    }
-    packet x	{uint32// @lengthOf(
-rootA	,u32 options1 `say ""hi""` , ")).
-Eval vm_compute in ("<<<M778>>>" ++ check (runes_of_ascii "root
-    packet leftPad
-{ @tag( 65535) tag
-Pad, char[] o
-    @lengthOf( float) , }packet
-//
-//	t
-A {char[] T @lengthOf(
-    packetx ),  }
-")).
-Eval vm_compute in ("<<<M1727>>>" ++ check (runes_of_ascii "root packet /// triple
-rootA {	i32
-MetaDataX@calculatedFrom( ""CRC32"" ) `line1
-line2` , } MetaData BodyLength {
-u8
-'\x01' rootA, } // c")).
-Eval vm_compute in ("<<<M3909>>>" ++ check (runes_of_ascii "packet Pad {
-}
-
-packet len {
-    string u128,
-}
-
-root packet o {
-    @tag(7)
-    char[] msg_type @calculatedFrom(""// no comment""),
-}")).
-Eval vm_compute in ("<<<M3708>>>" ++ check (runes_of_ascii "options {
-    // c
-    stringy = ""1"";
-    float = i64;// a // b
-    calculatedFrom = ""it's"";// c
-    Z9_ = ""// no comment"";// " ++ [27880; 37322]%N ++ runes_of_ascii "
-}")).
-Eval vm_compute in ("<<<M1709>>>" ++ check (runes_of_ascii "root packet /// triple
-rootA {	i32
-MetaDataX@calculatedFrom( ""CRC32"" ) `line1
-line2` , } MetaData BodyLength {
-u8
-rootA} , // c")).
-Eval vm_compute in ("<<<M3817>>>" ++ check (runes_of_ascii "root packet Foo {
-    //x
-    char[] body `crlf
-        line`,// " ++ [128512]%N ++ runes_of_ascii " emoji
-}
-
-options {
-    _x = false
-}
-
-packet BodyLength {
-}")).
-Eval vm_compute in ("<<<M515>>>" ++ check (runes_of_ascii "  MetaData//
-Foo
-    // `tick` ""quote"" 'q'
-    {char[ 65535
-    ] crc `" ++ [233]%N ++ runes_of_ascii "`	, repeatCount lengthOf
-,roots msg_type `it's` , }")).
-Eval vm_compute in ("<<<M1851>>>" ++ check (runes_of_ascii "packet
-    Pad // a // b
-{ i8i8 @calculatedFrom( ""a	b"") `u8 x,` ,
-} options{ float// " ++ [128512]%N ++ runes_of_ascii " emoji
-= f64 f64 i64_
-=//	t
-00 }
-")).
-Eval vm_compute in ("<<<M1871>>>" ++ check (runes_of_ascii "packet
-    Pad // a // b
-{ i8i8 @calculatedFrom( ""a	b"") `u8 x,` ,
-} options{ float// " ++ [128512]%N ++ runes_of_ascii " emoji
-= f64 i64_
-=//	t
-00 } }
-")).
-Eval vm_compute in ("<<<M792>>>" ++ check (runes_of_ascii "packet i8i8 { @tag(00)@lengthOf( // @lengthOf(
-chars ) @leftPad ( '\x00' ) A
-@calculatedFrom(	""it's"" )	`{ , }` ,	}
-")).
-Eval vm_compute in ("<<<M1820>>>" ++ check (runes_of_ascii "packet
-    Pad // a // b
-{ i8i8 @calculatedFrom( ""a	b"") `u8 x,` 
-} options{ float// " ++ [128512]%N ++ runes_of_ascii " emoji
-= f64 i64_
-=//	t
-00 }
-")).
-Eval vm_compute in ("<<<M1038>>>" ++ check (runes_of_ascii "
-packet BodyLength { @tag(3	) int16
-    BodyLength , zchar[
-1
-]
-    body @calculatedFrom( ""`tick`""
-)
-    , }
-")).
-Eval vm_compute in ("<<<M574>>>" ++ check (runes_of_ascii "options
-{ x_y_z = /// triple
-i32 ; } MetaData
-_x
-{
-    //x
-    chars Foo // `tick` ""quote"" 'q'
-,i32 Header ,}
-")).
-Eval vm_compute in ("<<<M3688>>>" ++ check (runes_of_ascii "packet Logon {
-    @tag(42)
-    @rightPad(' ')
-    @leftPad()
-    repeat trueish {
-        string T,
-    },
-}")).
-Eval vm_compute in ("<<<M3599>>>" ++ check (runes_of_ascii "
-packet 
-A{	match
-
-    k
-
-    as
-n {  [ ""a"" 
-,
-22
+, Logon charz `crlf
+line`
     ,
-    ""c c""
-,	4]
-    : B 2 :
-C
-
+    // a // b
     }
-
+")).
+Eval vm_compute in ("<<<M1270>>>" ++ check (runes_of_ascii "root
+    // trailing space 
+    packet
+//	t
+//
+trueish { @tag(
+0)
+@lengthOf( float) @lengthOf(
+trueish) repeat uint8 Logon
+    `line1
+line2`
+,  char[]
+body @lengthOf(A )
+`
+`,
+// " ++ [128512]%N ++ runes_of_ascii " emoji
+// c
+repeat
+    // packet A { u8 x, }
+    char[ 00
+    ]MetaDataX , @leftPad (  ) repeat int8 pack
 ,}
 ")).
-Eval vm_compute in ("<<<M3342>>>" ++ check (runes_of_ascii "packet calculatedFrom
-// c
-{ @tag( 4294967296 ) u msg_type , char[ 3 ] crc @lengthOf( len ) `u8 x,` , }")).
-Eval vm_compute in ("<<<M3374>>>" ++ check (runes_of_ascii "packet calculatedFrom { @tag( 4294967296 ) u msg_type , char[ 3 ] crc @lengthOf( len ) `u8 x,` ,
-// c
+Eval vm_compute in ("<<<M1413>>>" ++ check (runes_of_ascii "; packet Foo // " ++ [128512]%N ++ runes_of_ascii " emoji
+{ } options {
+    // a // b
+    tag // `tick` ""quote"" 'q'
+= //	t
+""""
+    ; u8x = zchar[0  ] }
+MetaData
+    int {zchar[ 10]
+lengthOf	`` , i64 u8x`// not a comment` ,MetaDataX pack// `tick` ""quote"" 'q'
+`crlf
+line`
+, Logon charz `crlf
+line`
+    ,
+    // a // b
+    }
+")).
+Eval vm_compute in ("<<<M1434>>>" ++ check (runes_of_ascii "root packet Foo // " ++ [128512]%N ++ runes_of_ascii " emoji
+{ }  {
+    // a // b
+    tag // `tick` ""quote"" 'q'
+= //	t
+""""
+    ; u8x = zchar[0  ] }
+MetaData
+    int {zchar[ 10]
+lengthOf	`` , i64 u8x`// not a comment` ,MetaDataX pack// `tick` ""quote"" 'q'
+`crlf
+line`
+, Logon charz `crlf
+line`
+    ,
+    // a // b
+    }
+")).
+Eval vm_compute in ("<<<M578>>>" ++ check (runes_of_ascii "packet chars
+    {  rootA i64_
+, @calculatedFrom(
+    ""1"" ) len @lengthOf(A )`two words`
+,repeat float32 leftPad
+    ,
+match	Z9_ as Pad{
+[
+""" ++ [28040; 24687]%N ++ runes_of_ascii """ // a // b
+, ""\" ++ [233]%N ++ runes_of_ascii """	,	00 ,  10 ] : As
+, }  ,
+    }MetaData matchKey {
+    leftPad uint8x`a\` , body x_y_z  ,} packet
+    tag
+{}")).
+Eval vm_compute in ("<<<M949>>>" ++ check (runes_of_ascii "options
+    { } packet repeatCount { Foo // " ++ [128512]%N ++ runes_of_ascii " emoji
+T ,_x `// not a comment` , @calculatedFrom(//	t
+""x y""  ) repeat
+    float32 uint8x `doc` ,char
+msg_type
+@lengthOf( // " ++ [27880; 37322]%N ++ runes_of_ascii "
+stringy ) , @lengthOf( int) repeat float `two words`, }MetaData u8x
+// " ++ [27880; 37322]%N ++ runes_of_ascii "
+// a // b
+{	}")).
+Eval vm_compute in ("<<<M3757>>>" ++ check (runes_of_ascii "options {
+    As = char[007];
+    _x = 1;
+    matchKey = true;
+    Logon = ' ';
+    stringy = zchar[007];
+}
+
+root packet MetaDataX {
+    //x
+    match leftPad as Logon {
+        255 : packetx,
+        [0123456789] : x_y_z,
+        10 : rootA,
+    },
 }")).
-Eval vm_compute in ("<<<M1859>>>" ++ check (runes_of_ascii "packet
-    Pad // a // b
-{ i8i8 @calculatedFrom( ""a	b"") `u8 x,` ,
-} options{ float// " ++ [128512]%N ++ runes_of_ascii " emoji
-= f64")).
-Eval vm_compute in ("<<<M1718>>>" ++ check (runes_of_ascii "root packet /// triple
+Eval vm_compute in ("<<<M352>>>" ++ check (runes_of_ascii "
+root packet
+    // `tick` ""quote"" 'q'
+    BodyLength { metadata
+/// triple
+// `tick` ""quote"" 'q'
+{
+calculatedFrom,zchar[ 007 ] msg_type@lengthOf( int )
+`say ""hi""` , chars uint8x , string
+As @calculatedFrom( ""a	b""
+)`
+` ,/// triple
+} ,  }
+")).
+Eval vm_compute in ("<<<M920>>>" ++ check (runes_of_ascii "packet len
+    { repeat
+metadata
+    ,}
+root packet
+string_ { @calculatedFrom(""\n""	)  i16 Z9_ @calculatedFrom(
+    // a // b
+    ""a\\"") // packet A { u8 x, }
+,
+metadata @calculatedFrom( ""CRC32"")//
+`u8 x,`,f64 options1 // " ++ [27880; 37322]%N ++ runes_of_ascii "
+,	} 	 ")).
+Eval vm_compute in ("<<<M2316>>>" ++ check (runes_of_ascii "MetaData Packet { }packet	asx  { @lengthOf( asx) falsey`crlf
+line`
+,
+    }
+    packet x	{uint32// @lengthOf(
+rootA	,u32 options1 options1 `say ""hi""` , @tag( 7
+    )// packet A { u8 x, }
+msg_type @lengthOf(
+stringy	)	, }
+
+")).
+Eval vm_compute in ("<<<M262>>>" ++ check (runes_of_ascii "packet charz
+{ @lengthOf(leftPad ) charz  @calculatedFrom( ""a\""b""
+)`it's`	, char[]
+Foo ,	uint8 MetaDataX `u8 x,`
+    ,int64 i8i8 , @calculatedFrom( ""a	b""
+) zchar[ // trailing space 
+7 ] string_, } MetaData Pad{
+    }")).
+Eval vm_compute in ("<<<M2371>>>" ++ check (runes_of_ascii "MetaData Packet { }packet	asx  { @lengthOf( asx) falsey`crlf
+line`
+,
+    }
+    packet x	{uint32// @lengthOf(
+rootA	,u32 options1 `say ""hi""` , @tag( 7
+    )// packet A { u8 x, }
+msg_type @lengthOf(
+stringy	)	, } }
+
+")).
+Eval vm_compute in ("<<<M2262>>>" ++ check (runes_of_ascii "MetaData Packet { }packet	asx  { @lengthOf( asx) `crlf
+line`falsey
+,
+    }
+    packet x	{uint32// @lengthOf(
+rootA	,u32 options1 `say ""hi""` , @tag( 7
+    )// packet A { u8 x, }
+msg_type @lengthOf(
+stringy	)	, }
+
+")).
+Eval vm_compute in ("<<<M2275>>>" ++ check (runes_of_ascii "MetaData Packet { }packet	asx  { @lengthOf( asx) falsey`crlf
+line`
+,
+    
+    packet x	{uint32// @lengthOf(
+rootA	,u32 options1 `say ""hi""` , @tag( 7
+    )// packet A { u8 x, }
+msg_type @lengthOf(
+stringy	)	, }
+
+")).
+Eval vm_compute in ("<<<M27>>>" ++ check (runes_of_ascii "packet
+    MetaDataX {
+    match Header as // a // b
+zchar { 0
+: pack	[ 42
+// packet A { u8 x, }
+// c
+,	65535 ]
+:
+crc } , // @lengthOf(
+@tag(
+    1 )@rightPad (' ' // " ++ [27880; 37322]%N ++ runes_of_ascii "
+)
+int64  Foo, } // packet A { u8 x, }")).
+Eval vm_compute in ("<<<M2323>>>" ++ check (runes_of_ascii "MetaData Packet { }packet	asx  { @lengthOf( asx) falsey`crlf
+line`
+,
+    }
+    packet x	{uint32// @lengthOf(
+rootA	,u32 options1 { , @tag( 7
+    )// packet A { u8 x, }
+msg_type @lengthOf(
+stringy	)	, }
+
+")).
+Eval vm_compute in ("<<<M3688>>>" ++ check (runes_of_ascii "
+
+  packet
+
+x_y_z 
+{
+}packet
+
+Logon {
+repeat
+i8 
+int,	}
+	root
+
+    packet stringy{ 
+char
+	chars	,
+
+    char[]
+    a1
+
+    @calculatedFrom(""// no comment""
+
+)`// not a comment`,
+string  Logon,}")).
+Eval vm_compute in ("<<<M751>>>" ++ check (runes_of_ascii "options
+// " ++ [128512]%N ++ runes_of_ascii " emoji
+// " ++ [128512]%N ++ runes_of_ascii " emoji
+{options1	=""{,}"" //
+} options
+{ packetx = '0' ;roots
+    =4294967296 As=	""CRC32"" ; chars
+// trailing space 
+// packet A { u8 x, }
+=//	t
+7; i8i8 = zchar[ 255	] }")).
+Eval vm_compute in ("<<<M705>>>" ++ check (runes_of_ascii "  options { x=zchar[ 42 ]
+//	t
+// a // b
+;  }
+// @lengthOf(
+// trailing space 
+packet
+matchKey { } options{ Header /// triple
+= char[] leftPad =
+    false charz = true; Header = 1 }")).
+Eval vm_compute in ("<<<M3639>>>" ++ check (runes_of_ascii "
+packet A {
+    match k 
+as
+    n 
+{
+	[
+1 ,	""bb""
+,
+
+    007  ,
+""d""	,
+
+5  ,""f""
+
+    ,
+    7
+    ,  ""h""
+    , 9  , ""j""
+
+,  11
+,
+    ""l"" ]  :
+	B
+2 :
+C
+
+    }	,
+    }
+
+")).
+Eval vm_compute in ("<<<M1330>>>" ++ check (runes_of_ascii "packet len{	}//	t
+root packet Pad {char[] Header	, @lengthOf(	falsey
+    )
+    // " ++ [128512]%N ++ runes_of_ascii " emoji
+    char[] Header , len`line1
+line2`
+,} packet asx { repeat int16
+    u , }
+")).
+Eval vm_compute in ("<<<M3929>>>" ++ check (runes_of_ascii "MetaData stringy {
+    zchar[255] u `
+    `,// packet A { u8 x, }
+    string repeatCount,
+    As i8i8 `{ , }`,
+    string x_y_z,
+    uint16 Pad,
+    uint32 asx,
+}")).
+Eval vm_compute in ("<<<M4237>>>" ++ check (runes_of_ascii "// c
+options {
+    lengthOf = false
+    Logon = false;
+}
+
+MetaData lengthOf {
+    // " ++ [128512]%N ++ runes_of_ascii " emoji
+    float32 i8i8,
+}
+
+root packet roots {
+    zchar[7] f32a,
+}")).
+Eval vm_compute in ("<<<M186>>>" ++ check (runes_of_ascii "//	t
+MetaData asx { char[]asx , x
+_x , } root packet lengthOf{ @tag(
+10
+)@rightPad ( '0' )
+    @rightPad('0' ) // " ++ [128512]%N ++ runes_of_ascii " emoji
+u32
+BodyLength, //	t
+}
+")).
+Eval vm_compute in ("<<<M1396>>>" ++ check (runes_of_ascii "root packet  BodyLength
+{
+}// `tick` ""quote"" 'q'
+root
+    // `tick` ""quote"" 'q'
+    packet f32a// c
+{
+@leftPad ( '0')
+    //
+    int8	Z9_	,}
+
+")).
+Eval vm_compute in ("<<<M1683>>>" ++ check (runes_of_ascii "root packet /// triple
 rootA {	i32
 MetaDataX@calculatedFrom( ""CRC32"" ) `line1
-line2` , } MetaDa")).
-Eval vm_compute in ("<<<M3224>>>" ++ check (runes_of_ascii "packet Logon { @tag( 42 // c
+line2` , } MetaData MetaData BodyLength {
+u8
+rootA, } // c")).
+Eval vm_compute in ("<<<M3785>>>" ++ check (runes_of_ascii "packet A {
+    match k as n {
+        [
+            ""a"", ""bb"", ""c c"", ""d"", ""e"",
+            ""f""
+        ] : B,
+        2 : C,
+    },
+}")).
+Eval vm_compute in ("<<<M299>>>" ++ check (runes_of_ascii "
+packet a1
+{ match i8i8
+    as repeatCount
+    // c
+    { [ 00
+    ] : crc, 3 :f32a 7 : matchKey , 0123456789	: float
+    } , }
+")).
+Eval vm_compute in ("<<<M1639>>>" ++ check (runes_of_ascii "root packet /// triple
+rootA i32	{
+MetaDataX@calculatedFrom( ""CRC32"" ) `line1
+line2` , } MetaData BodyLength {
+u8
+rootA, } // c")).
+Eval vm_compute in ("<<<M666>>>" ++ check (runes_of_ascii "  MetaData body
+{i16 // @lengthOf(
+metadata
+//	t
+// packet A { u8 x, }
+,
+float64
+    leftPad
+`
+`, BodyLength Z9_ `" ++ [233]%N ++ runes_of_ascii "`
+    ,}
+")).
+Eval vm_compute in ("<<<M865>>>" ++ check (runes_of_ascii "
+packet//x
+trueish
+{ u128 zchar`{ , }` ,repeat BodyLength crc`{ , }`, match len as As { ""CRC32"" : // " ++ [128512]%N ++ runes_of_ascii " emoji
+rootA ,
+} ,}")).
+Eval vm_compute in ("<<<M1796>>>" ++ check (runes_of_ascii "packet
+    Pad // a // b
+{ i8i8 i8i8 @calculatedFrom( ""a	b"") `u8 x,` ,
+} options{ float// " ++ [128512]%N ++ runes_of_ascii " emoji
+= f64 i64_
+=//	t
+00 }
+")).
+Eval vm_compute in ("<<<M3598>>>" ++ check (runes_of_ascii "
+packet
+A{
+match	k as n {
+
+    [ 1 ,""bb"" , 
+007
+    ,	""d"" ,	5,  ""f"",7,  ""h""
+,9  , 
+""j""  ,
+11	]
+:
+
+B
+
+, 2
+	:C
+} , }")).
+Eval vm_compute in ("<<<M1837>>>" ++ check (runes_of_ascii "packet
+    Pad // a // b
+{ i8i8 @calculatedFrom( ""a	b"") `u8 x,` ,
+} options float {// " ++ [128512]%N ++ runes_of_ascii " emoji
+= f64 i64_
+=//	t
+00 }
+")).
+Eval vm_compute in ("<<<M1817>>>" ++ check (runes_of_ascii "packet
+    Pad // a // b
+{ i8i8 @calculatedFrom( ""a	b"") , `u8 x,`
+} options{ float// " ++ [128512]%N ++ runes_of_ascii " emoji
+= f64 i64_
+=//	t
+00 }
+")).
+Eval vm_compute in ("<<<M3460>>>" ++ check (runes_of_ascii "// top
+root
+    // c0
+packet // c1a
+  // c1b
+P // c2a
+  // c2b
+{ // c3a
+  // c3b
+string // c4
+s , // c6
+}
+    // c7
+")).
+Eval vm_compute in ("<<<M1028>>>" ++ check (runes_of_ascii "MetaData int	{i64_ calculatedFrom , As
+    //
+    a1 `it's` ,u64  string_`two words` , repeatCount//
+Pad
+,
+    }
+")).
+Eval vm_compute in ("<<<M4049>>>" ++ check (runes_of_ascii "root packet MetaDataX {
+    //	t
+    @calculatedFrom(""it's"")
+    string msg_type @calculatedFrom("""") `{ , }`,
+}")).
+Eval vm_compute in ("<<<M511>>>" ++ check (runes_of_ascii "
+MetaData
+crc { MetaDataX pack
+    //x
+    ,
+/// triple
+// c
+}
+    MetaData repeatCount
+{
+// " ++ [128512]%N ++ runes_of_ascii " emoji
+//
+}
+")).
+Eval vm_compute in ("<<<M616>>>" ++ check (runes_of_ascii "packet
+msg_type { @rightPad ( )	@leftPad ('\x00' ) @rightPad// @lengthOf(
+(
+'\x00'  )  rootA
+    ``, }
+")).
+Eval vm_compute in ("<<<M3349>>>" ++ check (runes_of_ascii "packet calculatedFrom { @tag( 4294967296 ) // c
+u msg_type , char[ 3 ] crc @lengthOf( len ) `u8 x,` , }")).
+Eval vm_compute in ("<<<M1982>>>" ++ check (runes_of_ascii "root
+packet crc
+    { f32a @calculatedFrom( @calculatedFrom( """ ++ [233]%N ++ runes_of_ascii "t" ++ [233]%N ++ runes_of_ascii """ )
+    `say ""hi""`, lengthOf `` ,  }")).
+Eval vm_compute in ("<<<M3999>>>" ++ check (runes_of_ascii "packet
+roots
+	{ rootA
+    @lengthOf(trueish
+)	`line1
+line2`
+    , int16	Packet
+    `" ++ [28040; 24687; 31867; 22411]%N ++ runes_of_ascii "`
+    , } ")).
+Eval vm_compute in ("<<<M2968>>>" ++ check (runes_of_ascii "packet A {
+  match k as n {
+    [1, ""bb"", 007, ""d"", 5, ""f"", 7, ""h"", 9, ""j""] : B
+    2 : C
+  },
+}")).
+Eval vm_compute in ("<<<M3225>>>" ++ check (runes_of_ascii "packet Logon { @tag( 42
+// c
 ) @rightPad ( ' ' ) @leftPad ( ) repeat trueish { string T , } , }")).
-Eval vm_compute in ("<<<M3256>>>" ++ check (runes_of_ascii "packet Logon { @tag( 42 ) @rightPad ( ' ' ) @leftPad ( ) repeat trueish { string T , } , // c
+Eval vm_compute in ("<<<M3257>>>" ++ check (runes_of_ascii "packet Logon { @tag( 42 ) @rightPad ( ' ' ) @leftPad ( ) repeat trueish { string T , } ,
+// c
 }")).
 Eval vm_compute in ("<<<M2926>>>" ++ check (runes_of_ascii "packet A {
   match k as n {
@@ -2789,189 +2409,189 @@ Eval vm_compute in ("<<<M2926>>>" ++ check (runes_of_ascii "packet A {
     2 : C
   },
 }")).
-Eval vm_compute in ("<<<M1686>>>" ++ check (runes_of_ascii "root packet /// triple
-rootA {	i32
-MetaDataX@calculatedFrom( ""CRC32"" ) `line1
-line2` , }")).
-Eval vm_compute in ("<<<M2022>>>" ++ check (runes_of_ascii "root
-packet crc
-    { f32a @calculatedFrom( """ ++ [233]%N ++ runes_of_ascii "t" ++ [233]%N ++ runes_of_ascii """ )
-    `say ""hi""`, lengthOf `` ,  } }")).
-Eval vm_compute in ("<<<M1964>>>" ++ check (runes_of_ascii "root
-crc packet
-    { f32a @calculatedFrom( """ ++ [233]%N ++ runes_of_ascii "t" ++ [233]%N ++ runes_of_ascii """ )
-    `say ""hi""`, lengthOf `` ,  }")).
-Eval vm_compute in ("<<<M2928>>>" ++ check (runes_of_ascii "packet A {
-  match k as n {
-    [1, ""bb"", 007, ""d"", 5, ""f"", 7] : B,
-    2 : C
-  },
-}")).
-Eval vm_compute in ("<<<M331>>>" ++ check (runes_of_ascii "MetaData
-// a // b
-//	t
-rootA { } options //
-{ tag // `tick` ""quote"" 'q'
-=
-3; }
-")).
-Eval vm_compute in ("<<<M3315>>>" ++ check (runes_of_ascii "packet o { @tag( 42 ) repeat x { char[ 0123456789
-// c
-] i64_ , } , } options { }")).
-Eval vm_compute in ("<<<M3448>>>" ++ check (runes_of_ascii "options {
-    FixedStringPadFromLeft = true;
-}
-root packet P {
-    char[4] z,
-}
-")).
-Eval vm_compute in ("<<<M1844>>>" ++ check (runes_of_ascii "packet
-    Pad // a // b
-{ i8i8 @calculatedFrom( ""a	b"") `u8 x,` ,
-} options{")).
-Eval vm_compute in ("<<<M3891>>>" ++ check (runes_of_ascii "packet A {
+Eval vm_compute in ("<<<M4135>>>" ++ check (runes_of_ascii "packet A {
     B b `a
+    
     b`,
     B `a
+    
     b`,
     repeat B bs `a
+    
     b`,
 }")).
-Eval vm_compute in ("<<<M1911>>>" ++ check (runes_of_ascii "
-packet	As { @calculatedFrom( @calculatedFrom(//x
-""{,}""	)lengthOf , } 	 ")).
-Eval vm_compute in ("<<<M2208>>>" ++ check (runes_of_ascii "root
-    // `tick` ""quote"" 'q'
-@tag    packet As { trueish Packet , }
+Eval vm_compute in ("<<<M1256>>>" ++ check (runes_of_ascii "options { leftPad= 42 matchKey
+= ""CRC32"" // `tick` ""quote"" 'q'
+; lengthOf = ""{,}"" ;
+}
 ")).
-Eval vm_compute in ("<<<M1903>>>" ++ check (runes_of_ascii "
-packet	@calculatedFrom( { @calculatedFrom(//x
-""{,}""	)lengthOf , } 	 ")).
-Eval vm_compute in ("<<<M2876>>>" ++ check (runes_of_ascii "packet A {
+Eval vm_compute in ("<<<M2034>>>" ++ check (runes_of_ascii "root
+packet " ++ [233]%N ++ runes_of_ascii "crc
+    { f32a @calculatedFrom( """ ++ [233]%N ++ runes_of_ascii "t" ++ [233]%N ++ runes_of_ascii """ )
+    `say ""hi""`, lengthOf `` ,  }")).
+Eval vm_compute in ("<<<M2018>>>" ++ check (runes_of_ascii "root
+packet crc
+    { f32a @calculatedFrom( """ ++ [233]%N ++ runes_of_ascii "t" ++ [233]%N ++ runes_of_ascii """ )
+    `say ""hi""`, lengthOf `` }  ,")).
+Eval vm_compute in ("<<<M1849>>>" ++ check (runes_of_ascii "packet
+    Pad // a // b
+{ i8i8 @calculatedFrom( ""a	b"") `u8 x,` ,
+} options{ float")).
+Eval vm_compute in ("<<<M2938>>>" ++ check (runes_of_ascii "packet A {
   match k as n {
-    [1, ""bb"", 007] : B,
+    [1, 22, 007, 4, 5, 66, 7, 8] : B
     2 : C
   },
 }")).
-Eval vm_compute in ("<<<M2163>>>" ++ check (runes_of_ascii "root
-    // `tick` ""quote"" 'q'
-    packet { As trueish Packet , }
-")).
-Eval vm_compute in ("<<<M725>>>" ++ check (runes_of_ascii "MetaData options1
-{ zchar[  007 ]u
-,x_y_z f32a
-    `u8 x,` , }
-")).
-Eval vm_compute in ("<<<M1750>>>" ++ check (runes_of_ascii "options { `// not a comment`options {  } // `tick` ""quote"" 'q'")).
-Eval vm_compute in ("<<<M2157>>>" ++ check (runes_of_ascii "root
-    // `tick` ""quote"" 'q'
-     As { trueish Packet , }
-")).
-Eval vm_compute in ("<<<M2603>>>" ++ check (runes_of_ascii "packet A { match k as n { 1 : B 2 : C ""s"" : D [1] : E }, }")).
-Eval vm_compute in ("<<<M466>>>" ++ check (runes_of_ascii "options
-{ string_=
-7 tag = string;
-roots
-=true  ; } 	 ")).
-Eval vm_compute in ("<<<M3881>>>" ++ check (runes_of_ascii "MetaData u8x {
-    uint32 metadata `line1
-    line2`,
+Eval vm_compute in ("<<<M3324>>>" ++ check (runes_of_ascii "packet o { @tag( 42 ) repeat x { char[ 0123456789 ] i64_ , } , // c
+} options { }")).
+Eval vm_compute in ("<<<M889>>>" ++ check (runes_of_ascii "options { // c
+matchKey= ""a\""b""	; a1
+=
+uint16
+charz
+=char[]
+a1	=u8; As = 00; }")).
+Eval vm_compute in ("<<<M2733>>>" ++ check (runes_of_ascii """a	b"" , char[] @rightPad false @calculatedFrom( Foo ] i64 char MetaData 7 { }")).
+Eval vm_compute in ("<<<M2895>>>" ++ check (runes_of_ascii "packet A {
+  match k as n {
+    [""a"", ""bb"", 007, ""d""] : B,
+    2 : C
+  },
 }")).
-Eval vm_compute in ("<<<M2000>>>" ++ check (runes_of_ascii "root
-packet crc
-    { f32a @calculatedFrom( """ ++ [233]%N ++ runes_of_ascii "t" ++ [233]%N ++ runes_of_ascii """ )")).
-Eval vm_compute in ("<<<M2406>>>" ++ check (runes_of_ascii "MetaData A
+Eval vm_compute in ("<<<M2975>>>" ++ check (runes_of_ascii "packet A { Inner { match k as n { [1,22,007,4,5,66,7,8,9,10] : B, }, }, }")).
+Eval vm_compute in ("<<<M1277>>>" ++ check (runes_of_ascii "options{
+    lengthOf = zchar[//	t
+0 ]
+Logon =42
+roots = ""CRC32""
+    }")).
+Eval vm_compute in ("<<<M4256>>>" ++ check (runes_of_ascii "
+
+  packet
+A
+{ match 
+k as	n	{ [  ""a"" ] :	B  2
+
+:
+    C }
+    ,
+
+}
+
+")).
+Eval vm_compute in ("<<<M2204>>>" ++ check (runes_of_ascii "root
+ @x   // `tick` ""quote"" 'q'
+    packet As { trueish Packet , }
+")).
+Eval vm_compute in ("<<<M1829>>>" ++ check (runes_of_ascii "packet
+    Pad // a // b
+{ i8i8 @calculatedFrom( ""a	b"") `u8 x,` ,")).
+Eval vm_compute in ("<<<M2873>>>" ++ check (runes_of_ascii "packet A {
+  match k as n {
+    [1, 22, 007] : B
+    2 : C
+  },
+}")).
+Eval vm_compute in ("<<<M16>>>" ++ check (runes_of_ascii "MetaData
+    stringy
+{ char[ 0] chars// @lengthOf(
+`{ , }` , }")).
+Eval vm_compute in ("<<<M1937>>>" ++ check (runes_of_ascii "
+packet	As { @calculatedFrom(//x
+""{,}""	)lengthOf , zchar[ 	 ")).
+Eval vm_compute in ("<<<M2603>>>" ++ check (runes_of_ascii "packet A { match k as n { 1 : B 2 : C ""s"" : D [1] : E }, }")).
+Eval vm_compute in ("<<<M4223>>>" ++ check (runes_of_ascii "  options{ }
+
+options{} 	 // `tick` ""quote"" 'q@leftpad'
+")).
+Eval vm_compute in ("<<<M1932>>>" ++ check (runes_of_ascii "
+packet	As { @calculatedFrom(//x
+""{,}""	)lengthOf } , 	 ")).
+Eval vm_compute in ("<<<M3163>>>" ++ check (runes_of_ascii "// a
+MetaData M {} // b
+// c
+MetaData N {} // d
+// e")).
+Eval vm_compute in ("<<<M2862>>>" ++ check (runes_of_ascii "packet A { Inner { match k as n { [1] : B, }, }, }")).
+Eval vm_compute in ("<<<M801>>>" ++ check (runes_of_ascii "MetaData tag { Logon rootA `` ,
+} packet Pad{
+}
+")).
+Eval vm_compute in ("<<<M2399>>>" ++ check (runes_of_ascii "MetaData A
 {
 i64
-options	, } // `tick` ""quote"" 'q'")).
-Eval vm_compute in ("<<<M503>>>" ++ check (runes_of_ascii "options{Foo
-    =
-    int8 ; As =
-    007 } //	t")).
-Eval vm_compute in ("<<<M2102>>>" ++ check (runes_of_ascii "MetaData MetaData x
-{// " ++ [128512]%N ++ runes_of_ascii " emoji
-i16 stringy , }")).
-Eval vm_compute in ("<<<M735>>>" ++ check (runes_of_ascii "
-options
-{ stringy =' ' /// triple
-;
-    } 	 ")).
-Eval vm_compute in ("<<<M4250>>>" ++ check (runes_of_ascii "packet A {
-    u8 x `a
-        b
-      c`,
+chars	,  // `tick` ""quote"" 'q'")).
+Eval vm_compute in ("<<<M4312>>>" ++ check (runes_of_ascii "options {
+    a = ""\
+    "";
+    b = ""\
+    ""
 }")).
-Eval vm_compute in ("<<<M2108>>>" ++ check (runes_of_ascii "MetaData @tag(
-{// " ++ [128512]%N ++ runes_of_ascii " emoji
-i16 stringy , }")).
-Eval vm_compute in ("<<<M4106>>>" ++ check (runes_of_ascii "
-packet
-A
-
-    {
-
-    } 
-    // c x
+Eval vm_compute in ("<<<M2597>>>" ++ check (runes_of_ascii "packet A { repeat B { C { u8 x, }, D d, }, }")).
+Eval vm_compute in ("<<<M1226>>>" ++ check (runes_of_ascii "packet lengthOf { }
+// packet A { u8 x, }
 ")).
-Eval vm_compute in ("<<<M3193>>>" ++ check (runes_of_ascii "MetaData zchar
-// c
+Eval vm_compute in ("<<<M3417>>>" ++ check (runes_of_ascii "
+root packet	P {
+char  c
+, u8 x 
+, 
+} ")).
+Eval vm_compute in ("<<<M3192>>>" ++ check (runes_of_ascii "MetaData zchar // c
 { zchar[ 3 ] Pad , }")).
-Eval vm_compute in ("<<<M2606>>>" ++ check (runes_of_ascii "packet A { match k as n { [1,] : B }, }")).
-Eval vm_compute in ("<<<M3863>>>" ++ check (runes_of_ascii "root packet A {
-    u8 x `a
-    b`,
-}")).
-Eval vm_compute in ("<<<M2194>>>" ++ check (runes_of_ascii "root
-    // `tick` ""quote"" 'q'
-    p")).
-Eval vm_compute in ("<<<M4164>>>" ++ check (runes_of_ascii "
+Eval vm_compute in ("<<<M2147>>>" ++ check (runes_of_ascii "MetaData x
+{// " ++ [128512]%N ++ runes_of_ascii " emoji
+i16 s'tringy , }")).
+Eval vm_compute in ("<<<M3575>>>" ++ check (runes_of_ascii "
+root packet 
+P{
+	string s
 
-  options  { zchar =	false  ;
-	}
-")).
-Eval vm_compute in ("<<<M3007>>>" ++ check (runes_of_ascii "root packet A {
-    u8 x `a
-b`,
+    ,} ")).
+Eval vm_compute in ("<<<M2150>>>" ++ check (runes_of_ascii "MetaData x
+{// " ++ [128512]%N ++ runes_of_ascii " emoji
+i16 na" ++ [239]%N ++ runes_of_ascii "ve , }")).
+Eval vm_compute in ("<<<M2582>>>" ++ check (runes_of_ascii "packet A { string x @lengthOf(y) }")).
+Eval vm_compute in ("<<<M1604>>>" ++ check (runes_of_ascii "root packet Foo // " ++ [128512]%N ++ runes_of_ascii " emoji
+{ } o")).
+Eval vm_compute in ("<<<M3690>>>" ++ check (runes_of_ascii "root packet As {
+    trueish,
 }")).
-Eval vm_compute in ("<<<M661>>>" ++ check (runes_of_ascii "options  { metadata=""packet""	}
-")).
-Eval vm_compute in ("<<<M3083>>>" ++ check (runes_of_ascii "packet A {
- u8 x `d" ++ [5760]%N ++ runes_of_ascii "`, // c" ++ [5760]%N ++ runes_of_ascii "
+Eval vm_compute in ("<<<M3113>>>" ++ check (runes_of_ascii "packet A {
+ u8 x `d" ++ [8287]%N ++ runes_of_ascii "`, // c" ++ [8287]%N ++ runes_of_ascii "
 }")).
-Eval vm_compute in ("<<<M4141>>>" ++ check (runes_of_ascii "packet BodyLength {
-
-    } ")).
-Eval vm_compute in ("<<<M2588>>>" ++ check (runes_of_ascii "packet A { x @lengthOf(), }")).
-Eval vm_compute in ("<<<M2575>>>" ++ check (runes_of_ascii "packet A { u8 x `d` `e`, }")).
-Eval vm_compute in ("<<<M2782>>>" ++ check ([65533]%N ++ runes_of_ascii "`js" ++ [65533; 18; 65533; 65533; 0]%N ++ runes_of_ascii "}P" ++ [65533; 31; 1653]%N ++ runes_of_ascii "m" ++ [65533; 65533; 65533; 65533]%N ++ runes_of_ascii "E,T" ++ [65533]%N ++ runes_of_ascii "b" ++ [65533]%N)).
-Eval vm_compute in ("<<<M3269>>>" ++ check (runes_of_ascii "// c
-options { u8x = 3 }")).
+Eval vm_compute in ("<<<M1433>>>" ++ check (runes_of_ascii "root packet Foo // " ++ [128512]%N ++ runes_of_ascii " emoji
+{")).
+Eval vm_compute in ("<<<M2722>>>" ++ check (runes_of_ascii "@tag( { } : match : { false")).
+Eval vm_compute in ("<<<M2620>>>" ++ check (runes_of_ascii "packet A { @tag(x) u8 x, }")).
+Eval vm_compute in ("<<<M3281>>>" ++ check (runes_of_ascii "options { u8x = 3 } // c
+")).
+Eval vm_compute in ("<<<M3273>>>" ++ check (runes_of_ascii "options { // c
+u8x = 3 }")).
 Eval vm_compute in ("<<<M2666>>>" ++ check (runes_of_ascii "options { packet = 1; }")).
-Eval vm_compute in ("<<<M3809>>>" ++ check (runes_of_ascii "// c" ++ [8239]%N ++ runes_of_ascii "
-
-	packet A{  }
+Eval vm_compute in ("<<<M2773>>>" ++ check (runes_of_ascii "int64 ; char match i64")).
+Eval vm_compute in ("<<<M409>>>" ++ check (runes_of_ascii "MetaData leftPad	{}
+")).
+Eval vm_compute in ("<<<M2641>>>" ++ check (runes_of_ascii "MetaData M { u8 x }")).
+Eval vm_compute in ("<<<M2738>>>" ++ check (runes_of_ascii """{,}"" char [ match")).
+Eval vm_compute in ("<<<M3122>>>" ++ check (runes_of_ascii "// c" ++ [12]%N ++ runes_of_ascii "
+packet A {
+}")).
+Eval vm_compute in ("<<<M3059>>>" ++ check (runes_of_ascii "packet A {
+}// c ")).
+Eval vm_compute in ("<<<M3887>>>" ++ check (runes_of_ascii "packet x_y_z {
+}")).
+Eval vm_compute in ("<<<M2827>>>" ++ check (runes_of_ascii ";,1Ws PvAg=KMJ")).
+Eval vm_compute in ("<<<M2755>>>" ++ check ([1074; 18; 65533; 65533; 65533]%N ++ runes_of_ascii "G" ++ [23; 65533; 65533]%N ++ runes_of_ascii "+t")).
+Eval vm_compute in ("<<<M2055>>>" ++ check (runes_of_ascii "MetaData")).
+Eval vm_compute in ("<<<M1789>>>" ++ check (runes_of_ascii "packet")).
+Eval vm_compute in ("<<<M2449>>>" ++ check (runes_of_ascii "false")).
+Eval vm_compute in ("<<<M3812>>>" ++ check (runes_of_ascii "
+//
+")).
+Eval vm_compute in ("<<<M1319>>>" ++ check (runes_of_ascii "
 
 ")).
-Eval vm_compute in ("<<<M218>>>" ++ check (runes_of_ascii "
-packet len
-    { }")).
-Eval vm_compute in ("<<<M2629>>>" ++ check (runes_of_ascii "packet A { } packet")).
-Eval vm_compute in ("<<<M2801>>>" ++ check (runes_of_ascii "{ float32 : repeat")).
-Eval vm_compute in ("<<<M3136>>>" ++ check (runes_of_ascii "packet A {
-}
-// c" ++ [65279]%N)).
-Eval vm_compute in ("<<<M3074>>>" ++ check (runes_of_ascii "packet A {
-}// c" ++ [133]%N)).
-Eval vm_compute in ("<<<M126>>>" ++ check (runes_of_ascii "packet	float{ }")).
-Eval vm_compute in ("<<<M2798>>>" ++ check (runes_of_ascii "/" ++ [65533]%N ++ runes_of_ascii "FS" ++ [65533]%N ++ runes_of_ascii "A" ++ [65533; 65533; 65533]%N ++ runes_of_ascii "q" ++ [65533; 65533; 65533]%N ++ runes_of_ascii "%")).
-Eval vm_compute in ("<<<M1423>>>" ++ check (runes_of_ascii "root packet")).
-Eval vm_compute in ("<<<M4319>>>" ++ check (runes_of_ascii "
-// c" ++ [133]%N ++ runes_of_ascii "
-")).
-Eval vm_compute in ("<<<M2740>>>" ++ check (runes_of_ascii "6g/cniK")).
-Eval vm_compute in ("<<<M2425>>>" ++ check (runes_of_ascii "char[")).
-Eval vm_compute in ("<<<M3100>>>" ++ check (runes_of_ascii "// c" ++ [8233]%N)).
-Eval vm_compute in ("<<<M2544>>>" ++ check (runes_of_ascii "a
-b")).
-Eval vm_compute in ("<<<M2548>>>" ++ check (runes_of_ascii "a" ++ [160]%N ++ runes_of_ascii "b")).
-Eval vm_compute in ("<<<M4425>>>" ++ check (runes_of_ascii "  ")).
+Eval vm_compute in ("<<<M2807>>>" ++ check (runes_of_ascii "e-z")).
+Eval vm_compute in ("<<<M2516>>>" ++ check (runes_of_ascii "`")).
